@@ -15,23 +15,23 @@ func init() {
 	register(&PropSpec{
 		ID:    "C16",
 		Title: "Signed schema blobs verify, and only untampered ones do",
-		Explanation: "Decided (structural necessary conditions, all on go/ssa of the current tree). " +
-			"J-verify: (chain) every return of jsonsign.(*VerifyRequest).Verify whose error may be nil is dominated by the success edge of ParseSigMap, ParsePayloadMap, FindAndParsePublicKeyBlob and VerifySignature applied to Verify's own receiver, and a step that writes a request field precedes every step that reads it (order is derived from the steps' field read/write sets, not frozen); " +
-			"(signature) in VerifySignature every possibly-true return is dominated by err==nil of (*packet.PublicKey).VerifySignature; the hash handed to it is created in the function and is fed only by Write calls whose argument is one field of the request (the payload field), at least one of which precedes the verification; the signature packet derives from exactly one request field (the signature field); the verifying key is a load of one request field (the key field); " +
-			"(writers, module-wide, by field identity) the key field is stored only by a VerifyRequest method, with a value derived from a blob.Fetcher.Fetch of the signer-ref field, on the success edge of the fetch and of every fallible call in between, and every nil-error return of that method is preceded by the store; the signer-ref field and PayloadMap are stored only from a map json.Unmarshal'ed from one and the same request field (the payload-JSON field), the signer under a constant key; the signature field is stored only from the single constant key of a map Unmarshal'ed from the signature-bytes field, and that function returns true only under len(map)==1 on the Unmarshal success edge; SignerKeyId is stored only on the success edge of the cryptographic verification with a value derived from the key field; crypto.Hash.New on the packet's hash id is reachable only through an edge on which that id equals a constant (white list; New panics for an id that is not linked in); " +
-			"(split) the payload, payload-JSON and signature-bytes fields are stored only in NewVerificationRequest, as doc[:i], doc[:i+1] (with '}' stored at index i) and a value derived from doc[i+1:], where doc is the document argument and i is the result of bytes/strings.LastIndex(doc, constant separator), each slice on the i != -1 edge; the signature JSON key occurs, quoted and followed by a colon, inside that separator. " +
-			"J-index: every module function outside package jsonsign that returns a *VerifyRequest returns, together with a possibly-nil error, only a request on which Verify returned nil (dominance); every caller of a function taking a *VerifyRequest parameter passes its own such parameter or a request verified that way; every read of an exported, non-error VerifyRequest field outside package jsonsign is on a parameter (covered by the callers rule) or on a request whose Verify / verifier call is known to have succeeded at the read (err==nil edge, or - only if Verify is found to mirror a non-nil result into the request's error field from a literal deferred before the first step - that field found nil after the call); at every call of Verify outside package jsonsign the verdict decides a branch or is returned; in (*Index).populateMutationMapForSchema every path on which the blob type is permanode or claim reaches a possibly-nil-error return only through a successful verifier call (the verifier's own error may be returned). " +
-			"J-sign: in (*SignRequest).Sign the bytes handed to openpgp.ArmoredDetachSign are exactly the string placed before the separator in the returned document, the text between them is the separator NewVerificationRequest searches for, the signature text derives from the armor buffer and is followed by '\"}', and the signing entity is looked up from the public key fetched under the same JSON key the verifier reads the signer from. " +
-			"NOT decided: correctness of OpenPGP, armor and JSON decoding; the outcome of any particular byte substitution, insertion or deletion; that distinct documents cannot share payload bytes; key-ring contents; anything about signature times; that reArmor inverts the single-line armor for every signature; whether callers hold on to a request after a later failed Verify.",
+		Explanation: "Decided (structural necessary conditions, all on go/ssa of the current tree). Every rule is evaluated on the EFFECTIVE BODY of the property's entry points - jsonsign.(*VerifyRequest).Verify, jsonsign.NewVerificationRequest, jsonsign.(*SignRequest).Sign, and outside package jsonsign the function that consumes a request - i.e. the entry point plus, transitively (depth 5), the same-package functions, methods and function literals it calls statically, with parameters standing for the caller's arguments and call results for the callee's returned values; a fact 'P succeeded before site S' crosses a call when S is on the success edge of the call (nil error, true, or non-nil sole result; otherwise every return counts) and inside the callee every return that may report success is itself success-dominated by P. No internal helper is anchored by name: sites are found by what they do. " +
+			"J-verify: (signature check) every return of Verify whose error may be nil is dominated by err==nil of a (*packet.PublicKey).VerifySignature call; the hash handed to it is created in the effective body and fed only by Write calls whose argument is one field of Verify's receiver (the payload field), at least one of which precedes the verification; the signature packet derives from exactly one request field (the signature field); the verifying key is a load of one request field (the key field); crypto.Hash.New on the packet's hash id is reachable only through an edge on which that id equals a constant (white list; New panics for an id that is not linked in); " +
+			"(order) on every path to the verification a store of the key field on the same request precedes the load of the key, a store of the signature field precedes the read that feeds the signature packet, and a store of the signer-ref field precedes the Fetch of the key blob; " +
+			"(writers, module-wide, by field identity, each at its sites inside the entry points' effective bodies or else in its own function) the key field is stored only with a value derived from a blob.Fetcher.Fetch of the signer-ref field of the same request, on the success edge of the fetch and of every fallible call in between; the signer-ref field and PayloadMap are stored only from a map json.Unmarshal'ed from one and the same field of the same request (the payload-JSON field), the signer under a constant key, and every possibly-nil-error return of Verify is preceded by such a PayloadMap store; the signature field is stored only from the single constant key of a map Unmarshal'ed from the signature-bytes field, and every possibly-nil-error return of Verify is under len(map)==1 on the Unmarshal success edge; SignerKeyId is stored only on the success edge of the cryptographic verification with a value derived from the key field; " +
+			"(split) the payload, payload-JSON and signature-bytes fields are stored only in NewVerificationRequest's effective body on the request it returns, as doc[:i], doc[:i+1] (with '}' stored at index i) and a value derived from doc[i+1:], where doc is the document argument and i is the result of bytes/strings.LastIndex(doc, constant separator), each slice on the i != -1 edge; the signature JSON key occurs, quoted and followed by a colon, inside that separator. " +
+			"J-index: every caller of a function (outside package jsonsign) taking a *VerifyRequest parameter passes its own such parameter or a request on which Verify is known to have returned nil at the call (dominance on the err==nil edge, across helpers and statically called literals; a helper that merely constructs or returns a request is followed, not trusted); every read of an exported, non-error VerifyRequest field outside package jsonsign is on a parameter (covered by the callers rule) or on a request whose Verify call is known to have succeeded at the read (or - only if Verify is found to mirror a non-nil result into the request's error field from a call deferred before any other failing return - that field found nil after the call); at every call of Verify outside package jsonsign the verdict decides a branch or is returned; in every function of pkg/index that dispatches on (*schema.Blob).Type(), every path on which the blob type is permanode or claim reaches a possibly-nil-error return only through a call that verifies (Verify itself or a function all of whose successful returns are dominated by a successful Verify), whose own error may be returned. " +
+			"J-sign: in Sign's effective body the bytes handed to openpgp.ArmoredDetachSign are exactly the string placed before the separator in the returned document, the text between them is the separator NewVerificationRequest searches for, the signature text derives from the armor buffer and is followed by '\"}', the signed string is the input minus a last byte known to be '}', and the signing entity is looked up from the public key fetched under the same JSON key the verifier reads the signer from. " +
+			"NOT decided: correctness of OpenPGP, armor and JSON decoding; the outcome of any particular byte substitution, insertion or deletion; that distinct documents cannot share payload bytes; key-ring contents; anything about signature times; that reArmor inverts the single-line armor for every signature; whether callers hold on to a request after a later failed Verify; calls through function values or interfaces inside the entry points (reported Undecided/violated, not followed); what happens to the indexer's error above the dispatching function.",
 		RuleDocs: map[string]string{
-			"J-verify": "dominance + value dependence over jsonsign.VerifyRequest: Verify's success return behind the four steps (order from field read/write sets); VerifySignature's true return behind packet.PublicKey.VerifySignature==nil over a hash fed only with the payload field; module-wide writers of the key/signer/signature/payload fields; the LastIndex split in NewVerificationRequest",
-			"J-index":  "who-may-read / who-may-pass: every *VerifyRequest crossing a function boundary or having an exported field read outside package jsonsign is one on which Verify is known to have returned nil; no caller of Verify ignores its verdict; signed blob types (permanode, claim) are dispatched through the verifier in the indexer",
-			"J-sign":   "agreement between Sign and the verifier: signed bytes == bytes before the separator, same separator constant, same signer JSON key",
+			"J-verify": "dominance + value dependence over the effective body of jsonsign.Verify (statically called same-package functions and literals followed, arguments mapped to parameters): success return behind packet.PublicKey.VerifySignature==nil over a hash fed only with the payload field; hash-id white list; stores of key/signature/signer precede their reads; module-wide writers of the key/signer/signature/payload-map/key-id fields by value derivation on success edges; one-key guard; the LastIndex split in NewVerificationRequest",
+			"J-index":  "who-may-read / who-may-pass: every *VerifyRequest passed to a function or having an exported field read outside package jsonsign is one on which Verify is known to have returned nil (across helpers); no caller of Verify ignores its verdict; signed blob types (permanode, claim) are dispatched through a verifying call in the indexer",
+			"J-sign":   "agreement between Sign (effective body) and the verifier: signed bytes == bytes before the separator, same separator constant, same signer JSON key, closing brace cut",
 		},
 		Run:       runC16,
 		DesignRef: "DESIGN.md §4 C16",
-		Technique: "static analysis: dominance on success edges, backward value dependence and module-wide field-writer enumeration over go/ssa; constant agreement between signer and verifier",
-		LevelText: "Decides structural necessary conditions only: acceptance by Verify/VerifySignature is dominated by the cryptographic check over the payload bytes split at the last separator, with the key fetched under the signer named in those bytes; the indexer and the sign handler read verification results only from requests known verified; Sign signs exactly what it places before the separator. Does not decide OpenPGP/JSON correctness nor the result of any concrete tampering.",
+		Technique: "static analysis: interprocedural (context-sensitive, bounded call strings over statically resolved same-package callees) dominance on success edges, backward value dependence and forward use tracking across calls, module-wide field-writer enumeration over go/ssa, guarded-edge reachability; constant agreement between signer and verifier",
+		LevelText: "Decides structural necessary conditions only: acceptance by Verify is dominated by the cryptographic check over the payload bytes split at the last separator, with the key fetched under the signer named in those bytes; the indexer and the sign handler read verification results only from requests known verified; Sign signs exactly what it places before the separator. The conditions are stated about the entry points' effective bodies, so they do not depend on how the code is divided into helpers. Does not decide OpenPGP/JSON correctness nor the result of any concrete tampering.",
 	})
 }
 
@@ -46,6 +46,13 @@ type c16State struct {
 	vrT *types.Named
 	ix  *c16FieldIndex
 
+	effs    map[*ssa.Function]*c16Eff
+	vrFuncs map[*ssa.Function]bool // functions (and literals) that mention a VerifyRequest at all
+
+	V      *c16Eff   // effective body of Verify
+	recv   c16CV     // Verify's receiver
+	crypto []c16Site // the cryptographic verification calls in V
+
 	// roles discovered while checking (field names of VerifyRequest)
 	payloadField string // bytes that are hashed (bp)
 	sigField     string // single-line armor (CamliSig)
@@ -57,8 +64,11 @@ type c16State struct {
 	sigKey       string // JSON key the signature is read from
 	sep          string // separator constant searched by NewVerificationRequest
 	sepKnown     bool
-	verifiers    map[*ssa.Function]bool // functions outside jsonsign returning a verified request
-	errField     string                 // error-typed field that Verify is known to leave non-nil whenever it returns an error ("" if not established)
+	fetchCalls   []*ssa.Call // Fetch calls the key field derives from
+	verifyingM   map[*ssa.Function]int
+	demanded     map[*ssa.Parameter]bool // *VerifyRequest parameters through which a verified request is demanded
+	demandQ      []*ssa.Parameter
+	errField     string // error-typed field that Verify is known to leave non-nil whenever it returns an error ("" if not established)
 }
 
 func runC16(p *Program, r *Reporter) {
@@ -66,25 +76,25 @@ func runC16(p *Program, r *Reporter) {
 	// mutants that map keeps every earlier Program alive (~3 GB each). It is only
 	// a memo, so dropping it is harmless.
 	plainVarCache = map[*ssa.Alloc]bool{}
-	s := &c16State{p: p, r: r, vrT: p.NamedType(c16Pkg, "VerifyRequest"), verifiers: map[*ssa.Function]bool{}}
-	s.ix = c16BuildIndex(p, s.vrT)
+	s := &c16State{p: p, r: r, vrT: p.NamedType(c16Pkg, "VerifyRequest"),
+		effs: map[*ssa.Function]*c16Eff{}, vrFuncs: map[*ssa.Function]bool{}, verifyingM: map[*ssa.Function]int{}}
+	s.ix = c16BuildIndex(p, s.vrT, s.vrFuncs)
 	r.Analysed("functions", len(p.AllFuncs))
-	s.ruleChain()
+	s.ruleVerify()
 	s.findErrChannel()
-	s.ruleVerifySignature()
+	s.ruleHashGuard()
 	s.ruleKeyWriters()
 	s.ruleSignerAndPayloadWriters()
 	s.ruleSigWriters()
 	s.ruleSignerKeyID()
+	s.ruleOrder()
 	s.ruleSplit()
-	s.ruleHashGuard()
-	r.Floor("J-verify", 23)
-	s.ruleVerifiers()
-	s.ruleCallers()
+	r.Floor("J-verify", 17)
 	s.ruleReads()
+	s.ruleCallers()
 	s.ruleSignedTypes()
 	s.ruleVerifyCallers()
-	r.Floor("J-index", 17)
+	r.Floor("J-index", 12)
 	s.ruleSign()
 	r.Floor("J-sign", 4)
 }
@@ -96,14 +106,36 @@ type c16FieldIndex struct {
 	stores  map[string][]*ssa.Store
 	loads   map[string][]*ssa.UnOp
 	escapes map[string][]ssa.Instruction // address taken / value-struct field access
-	whole   []ssa.Instruction           // whole-struct stores or copies
+	whole   []ssa.Instruction            // whole-struct stores or copies
 }
 
-func c16BuildIndex(p *Program, n *types.Named) *c16FieldIndex {
+func c16BuildIndex(p *Program, n *types.Named, vrFuncs map[*ssa.Function]bool) *c16FieldIndex {
 	ix := &c16FieldIndex{stores: map[string][]*ssa.Store{}, loads: map[string][]*ssa.UnOp{}, escapes: map[string][]ssa.Instruction{}}
+	mentions := func(t types.Type) bool {
+		if tu, ok := t.(*types.Tuple); ok {
+			for i := 0; i < tu.Len(); i++ {
+				if NamedOf(tu.At(i).Type()) == n {
+					return true
+				}
+			}
+			return false
+		}
+		return NamedOf(t) == n
+	}
 	for _, fn := range p.AllFuncs {
+		for _, prm := range fn.Params {
+			if mentions(prm.Type()) {
+				vrFuncs[fn] = true
+			}
+		}
+		if mentions(fn.Signature.Results()) {
+			vrFuncs[fn] = true
+		}
 		for _, b := range fn.Blocks {
 			for _, in := range b.Instrs {
+				if v, ok := in.(ssa.Value); ok && v.Type() != nil && mentions(v.Type()) {
+					vrFuncs[fn] = true
+				}
 				switch x := in.(type) {
 				case *ssa.FieldAddr:
 					if NamedOf(x.X.Type()) != n {
@@ -149,6 +181,12 @@ func c16BuildIndex(p *Program, n *types.Named) *c16FieldIndex {
 			}
 		}
 	}
+	// a literal inside a function that mentions requests may capture one
+	for _, fn := range p.AllFuncs {
+		if fn.Parent() != nil && vrFuncs[TopFunc(fn)] {
+			vrFuncs[fn] = true
+		}
+	}
 	return ix
 }
 
@@ -176,132 +214,193 @@ func (s *c16State) hasField(f string) bool {
 
 func (s *c16State) fieldKey(f string) string { return c16Pkg + ".VerifyRequest." + f }
 
-// ---------------------------------------------------------------------------
-// small value helpers
+func (s *c16State) line(pos token.Pos) int { return s.p.Fset.Position(pos).Line }
 
-func c16Last(b *ssa.BasicBlock) ssa.Instruction { return b.Instrs[len(b.Instrs)-1] }
-
-// c16Slice returns every value in the backward slice of v.
-func c16Slice(v ssa.Value) []ssa.Value {
-	var out []ssa.Value
-	DependsOn(v, func(x ssa.Value) bool { out = append(out, x); return false })
-	return out
-}
-
-// c16FieldLoadOn: v is a load of a field of the VerifyRequest pointed to by
-// base (any base when base == nil).
-func (s *c16State) fieldLoadOn(v ssa.Value, base ssa.Value) (string, bool) {
-	ld, ok := originValue(v).(*ssa.UnOp)
-	if !ok || ld.Op != token.MUL {
-		return "", false
-	}
-	fa, ok := ld.X.(*ssa.FieldAddr)
-	if !ok || NamedOf(fa.X.Type()) != s.vrT {
-		return "", false
-	}
-	if base != nil && originValue(fa.X) != base {
-		return "", false
-	}
-	return fieldName(fa.X.Type(), fa.Field), true
-}
-
-// sliceFields lists the fields of the request at base whose address occurs in
-// the backward slice of v.
-func (s *c16State) sliceFields(v ssa.Value, base ssa.Value) []string {
-	set := map[string]bool{}
-	for _, x := range c16Slice(v) {
-		if fa, ok := x.(*ssa.FieldAddr); ok && NamedOf(fa.X.Type()) == s.vrT && (base == nil || originValue(fa.X) == base) {
-			set[fieldName(fa.X.Type(), fa.Field)] = true
-		}
-	}
-	var out []string
-	for k := range set {
-		out = append(out, k)
-	}
-	sort.Strings(out)
-	return out
-}
-
-// vrRecv returns the receiver parameter when fn is a method on *VerifyRequest.
-func (s *c16State) vrRecv(fn *ssa.Function) ssa.Value {
-	if fn == nil || fn.Signature.Recv() == nil || len(fn.Params) == 0 || NamedOf(fn.Signature.Recv().Type()) != s.vrT {
-		return nil
-	}
-	return fn.Params[0]
-}
+func (s *c16State) verifyFn() *ssa.Function { return s.p.Func(c16Pkg, "VerifyRequest", "Verify") }
 
 func c16InPkg(fn *ssa.Function, rel string) bool {
 	t := TopFunc(fn)
 	return t.Pkg != nil && RelPkg(t.Pkg.Pkg) == rel
 }
 
-// c16AlwaysFalse: every return of fn yields the constant false as result i.
-func c16AlwaysFalse(fn *ssa.Function, i int) bool {
-	if fn == nil || fn.Blocks == nil {
-		return false
-	}
-	rets := Returns(fn)
-	if len(rets) == 0 {
-		return false
-	}
-	for _, ri := range rets {
-		c, ok := ri.Results[i].(*ssa.Const)
-		if !ok || c.Value == nil || c.Value.Kind() != constant.Bool || constant.BoolVal(c.Value) {
-			return false
-		}
-	}
-	return true
-}
+func c16Last(b *ssa.BasicBlock) ssa.Instruction { return b.Instrs[len(b.Instrs)-1] }
 
-// c16MaybeTrueReturns lists the returns of a bool-valued function whose result
-// is not known to be false (constant false, or the result of a callee that
-// only ever returns false, such as (*VerifyRequest).fail).
-func c16MaybeTrueReturns(fn *ssa.Function) []*ssa.Return {
-	var out []*ssa.Return
-	for _, ri := range Returns(fn) {
-		v := ri.Results[0]
-		if c, ok := v.(*ssa.Const); ok && c.Value != nil && c.Value.Kind() == constant.Bool && !constant.BoolVal(c.Value) {
+// ---------------------------------------------------------------------------
+// branch facts (intraprocedural)
+
+func c16StripNot(cond ssa.Value, val bool) (ssa.Value, bool) {
+	for {
+		if u, ok := cond.(*ssa.UnOp); ok && u.Op == token.NOT {
+			cond, val = u.X, !val
 			continue
 		}
-		if call, ok := originValue(v).(*ssa.Call); ok {
-			if f := (CallSite{call.Parent(), call}).Callee(); f != nil && c16AlwaysFalse(f, 0) {
+		return cond, val
+	}
+}
+
+func c16BoolConst(v ssa.Value) (val, ok bool) {
+	c, isC := v.(*ssa.Const)
+	if !isC || c.Value == nil || c.Value.Kind() != constant.Bool {
+		return false, false
+	}
+	return constant.BoolVal(c.Value), true
+}
+
+// c16Facts is FactsAt plus what a boolean phi built by && / || implies: when
+// `a && b` is known true (or `a || b` known false) only one incoming edge of
+// the phi is not the excluded constant, so that edge's value has the known
+// truth value and the facts of its predecessor block hold too.
+func c16Facts(b *ssa.BasicBlock) []CondFact {
+	f, _ := c16FactsV(b)
+	return f
+}
+
+// c16FactsV also returns the blocks that such a phi fact shows to have been
+// executed although they do not dominate b (the right operand of the && / ||).
+func c16FactsV(b *ssa.BasicBlock) ([]CondFact, []*ssa.BasicBlock) {
+	out := append([]CondFact(nil), FactsAt(b)...)
+	var visited []*ssa.BasicBlock
+	for i := 0; i < len(out) && len(out) < 96; i++ {
+		cond, val := c16StripNot(out[i].Cond, out[i].Val)
+		ph, ok := cond.(*ssa.Phi)
+		if !ok {
+			continue
+		}
+		live := -1
+		n := 0
+		for j, e := range ph.Edges {
+			if cv, isC := c16BoolConst(e); isC && cv != val {
 				continue
 			}
+			live = j
+			n++
 		}
-		out = append(out, ri.Ret)
+		if n != 1 || live >= len(ph.Block().Preds) {
+			continue
+		}
+		pred := ph.Block().Preds[live]
+		visited = append(visited, pred)
+		out = append(out, CondFact{ph.Edges[live], val, pred})
+		out = append(out, FactsAt(pred)...)
+	}
+	return out, visited
+}
+
+// c16Precedes: a executes before at on every path to at - by dominance, or
+// because a branch fact at `at` shows a's block to have been executed.
+func c16Precedes(a, at ssa.Instruction) bool {
+	if Precedes(a, at) {
+		return true
+	}
+	if a.Parent() != at.Parent() {
+		return false
+	}
+	_, visited := c16FactsV(at.Block())
+	for _, vb := range visited {
+		if a.Block() == vb || a.Block().Dominates(vb) {
+			return true
+		}
+	}
+	return false
+}
+
+// c16Returns is Returns, except that the load of a local variable is only
+// replaced by the value last stored when it is go/ssa's spill of a named
+// result around rundefers - `return m` of an ordinary address-taken local
+// stays a load of that variable.
+func c16Returns(fn *ssa.Function) []ReturnInfo {
+	var out []ReturnInfo
+	for _, b := range fn.Blocks {
+		if b == fn.Recover || len(b.Instrs) == 0 {
+			continue
+		}
+		ret, ok := c16Last(b).(*ssa.Return)
+		if !ok {
+			continue
+		}
+		ri := ReturnInfo{Ret: ret}
+		for _, rv := range ret.Results {
+			v := rv
+			if ld, ok := rv.(*ssa.UnOp); ok && ld.Op == token.MUL && ld.Block() == b {
+				spilled := false
+				for _, in := range b.Instrs {
+					if in == ssa.Instruction(ld) {
+						break
+					}
+					if _, isRD := in.(*ssa.RunDefers); isRD {
+						spilled = true
+					}
+				}
+				if spilled {
+					v = resolveReturnValue(rv, ret)
+				}
+			}
+			ri.Results = append(ri.Results, v)
+		}
+		out = append(out, ri)
 	}
 	return out
 }
 
-// c16Succeeded: every path to instruction at has passed through call c and c
-// reported success (nil error, or true for a bool-valued step).
-func c16Succeeded(c *ssa.Call, at ssa.Instruction) (bool, string) {
-	res := c.Call.Signature().Results()
-	if res.Len() == 1 {
-		if b, ok := res.At(0).Type().Underlying().(*types.Basic); ok && b.Kind() == types.Bool {
-			if !Precedes(c, at) {
-				return false, "call does not dominate the site"
-			}
-			for _, f := range FactsAt(at.Block()) {
-				cond, val := f.Cond, f.Val
-				for {
-					if u, ok := cond.(*ssa.UnOp); ok && u.Op == token.NOT {
-						cond, val = u.X, !val
-						continue
-					}
-					break
-				}
-				if originValue(cond) == ssa.Value(c) {
-					if val {
-						return true, ""
-					}
-					return false, "site is on the false edge of the call"
-				}
-			}
-			return false, "site is not on the true edge of the call"
+func c16NilFact(b *ssa.BasicBlock, v ssa.Value) (known, isNil bool) {
+	for _, f := range c16Facts(b) {
+		if k, n := condSaysNil(f.Cond, f.Val, v); k {
+			return true, n
 		}
 	}
-	return SuccessDominates(c, at)
+	return false, false
+}
+
+// c16BoolFact: what the dominating branches at b say about the boolean v.
+func c16BoolFact(b *ssa.BasicBlock, v ssa.Value) (known, val bool) {
+	for _, f := range c16Facts(b) {
+		cond, fv := c16StripNot(f.Cond, f.Val)
+		if cond == v || originValue(cond) == originValue(v) {
+			return true, fv
+		}
+	}
+	return false, false
+}
+
+// c16IntCond interprets (cond, val) as a statement about `x == k` for an x
+// accepted by match.
+func c16IntCond(cond ssa.Value, val bool, match func(ssa.Value) bool, k int64) (known, equal bool) {
+	cond, val = c16StripNot(cond, val)
+	bo, ok := cond.(*ssa.BinOp)
+	if !ok {
+		return false, false
+	}
+	x, y, op := bo.X, bo.Y, bo.Op
+	if _, isConst := x.(*ssa.Const); isConst {
+		x, y = y, x
+		switch op {
+		case token.LSS:
+			op = token.GTR
+		case token.GTR:
+			op = token.LSS
+		case token.LEQ:
+			op = token.GEQ
+		case token.GEQ:
+			op = token.LEQ
+		}
+	}
+	c, ok := ConstInt(y)
+	if !ok || !match(x) {
+		return false, false
+	}
+	switch {
+	case op == token.EQL && c == k:
+		return true, val
+	case op == token.NEQ && c == k:
+		return true, !val
+	case op == token.LSS && c == k+1 && !val && k == -1: // !(v < 0) for k == -1: v >= 0
+		return true, false
+	case op == token.GEQ && c == k+1 && val && k == -1: // v >= 0
+		return true, false
+	case op == token.GTR && c == k && val && k == -1: // v > -1
+		return true, false
+	}
+	return false, false
 }
 
 // c16KnownNonNilReload: v re-loads a field path (e.g. vr.Err) that a dominating
@@ -312,7 +411,7 @@ func c16KnownNonNilReload(v ssa.Value, at *ssa.BasicBlock) bool {
 		return false
 	}
 	path := AccessPath(ld)
-	if strings.HasPrefix(path, "?") || strings.Contains(path, "?") {
+	if strings.Contains(path, "?") {
 		return false
 	}
 	quiet := func(ins []ssa.Instruction) bool {
@@ -356,283 +455,1516 @@ func c16KnownNonNilReload(v ssa.Value, at *ssa.BasicBlock) bool {
 	return false
 }
 
-// c16NonNilViaCallee: v is result i of a call to a statically known function
-// (or local literal) all of whose returns yield a non-nil error expression.
-func c16NonNilViaCallee(v ssa.Value) bool {
-	ex, ok := v.(*ssa.Extract)
+// ---------------------------------------------------------------------------
+// success notions
+
+const (
+	c16KindNone    = iota // no indicator: every return counts
+	c16KindErr            // trailing error result: success = nil
+	c16KindBool           // trailing bool result: success = true
+	c16KindNilable        // sole pointer-like result: success = non-nil
+)
+
+func c16Nilable(t types.Type) bool {
+	switch t.Underlying().(type) {
+	case *types.Pointer, *types.Map, *types.Slice, *types.Interface, *types.Chan, *types.Signature:
+		return true
+	}
+	return false
+}
+
+func c16SuccessKind(sig *types.Signature) (kind, idx int) {
+	res := sig.Results()
+	n := res.Len()
+	if n == 0 {
+		return c16KindNone, -1
+	}
+	last := res.At(n - 1).Type()
+	if isErrorType(last) {
+		return c16KindErr, n - 1
+	}
+	if b, ok := last.Underlying().(*types.Basic); ok && b.Kind() == types.Bool {
+		return c16KindBool, n - 1
+	}
+	if n == 1 && c16Nilable(last) {
+		return c16KindNilable, 0
+	}
+	return c16KindNone, -1
+}
+
+func c16IsZeroConst(v ssa.Value) bool {
+	c, ok := v.(*ssa.Const)
 	if !ok {
 		return false
 	}
-	call, ok := ex.Tuple.(*ssa.Call)
-	if !ok {
+	if c.Value == nil {
+		return true
+	}
+	switch c.Value.Kind() {
+	case constant.Bool:
+		return !constant.BoolVal(c.Value)
+	case constant.String:
+		return constant.StringVal(c.Value) == ""
+	case constant.Int, constant.Float:
+		return constant.Sign(c.Value) == 0
+	}
+	return false
+}
+
+// c16FailureValue: v, as the success indicator of the given kind, always
+// reports failure.
+func c16FailureValue(v ssa.Value, kind int) bool {
+	switch kind {
+	case c16KindErr:
+		return !IsNilConst(v) && isNonNilErrorExpr(v)
+	case c16KindBool:
+		b, ok := c16BoolConst(v)
+		return ok && !b
+	case c16KindNilable:
+		return IsNilConst(v)
+	}
+	return false
+}
+
+// c16AlwaysFails: result i of f reports failure on every return (such as
+// (*VerifyRequest).fail, or a closure that only builds an error).
+func c16AlwaysFails(f *ssa.Function, i, kind int, depth int) bool {
+	if f == nil || f.Blocks == nil || depth > 3 {
 		return false
 	}
-	f := (CallSite{call.Parent(), call}).Callee()
-	if f == nil || f.Blocks == nil {
-		return false
-	}
-	rets := Returns(f)
+	rets := c16Returns(f)
 	if len(rets) == 0 {
 		return false
 	}
 	for _, ri := range rets {
-		if ex.Index >= len(ri.Results) || !isNonNilErrorExpr(ri.Results[ex.Index]) {
+		if i >= len(ri.Results) {
 			return false
 		}
+		v := ri.Results[i]
+		if c16FailureValue(v, kind) {
+			continue
+		}
+		if call, idx := c16CallResult(originValue(v)); call != nil {
+			if g := (CallSite{call.Parent(), call}).Callee(); g != nil && g != f && c16AlwaysFails(g, idx, kind, depth+1) {
+				continue
+			}
+		}
+		return false
 	}
 	return true
 }
 
-// successReturns lists the returns of fn whose error result may be nil.
-func c16SuccessReturns(fn *ssa.Function) []NilReturn {
-	var out []NilReturn
-	for _, nr := range MaybeNilErrorReturns(fn) {
-		if c16KnownNonNilReload(nr.Val, nr.From) || c16NonNilViaCallee(nr.Val) {
-			continue
+// c16CallResult: v is result idx of call (the call itself for single results).
+func c16CallResult(v ssa.Value) (*ssa.Call, int) {
+	switch x := v.(type) {
+	case *ssa.Call:
+		if x.Call.Signature().Results().Len() == 1 {
+			return x, 0
 		}
-		out = append(out, nr)
+	case *ssa.Extract:
+		if c, ok := x.Tuple.(*ssa.Call); ok {
+			return c, x.Index
+		}
+	}
+	return nil, 0
+}
+
+// c16CallOK: every path to instruction at (of the same function) has passed
+// through call c and c reported success there. exitVal, when given, is the
+// indicator value being returned at `at`: returning c's own verdict is being on
+// its success edge whenever the return reports success.
+func c16CallOK(c *ssa.Call, at ssa.Instruction, exitVal ssa.Value) (bool, string) {
+	if !c16Precedes(c, at) {
+		return false, "the call does not dominate the site"
+	}
+	sig := c.Call.Signature()
+	kind, idx := c16SuccessKind(sig)
+	if kind == c16KindNone {
+		return true, ""
+	}
+	ind := ResultValue(c, idx)
+	if exitVal != nil && ind != nil && sameOrigin(exitVal, ind) {
+		return true, ""
+	}
+	b := at.Block()
+	switch kind {
+	case c16KindErr:
+		discarded := ind == nil
+		if ind != nil {
+			if refs := ind.Referrers(); refs == nil || len(nonDebug(*refs)) == 0 {
+				discarded = true
+			}
+			if k, isNil := c16NilFact(b, ind); k && isNil {
+				return true, ""
+			}
+		}
+		// failure excluded through the primary result instead (`x, _ := f(); if x == nil {return}`)
+		if sig.Results().Len() >= 2 && c16Nilable(sig.Results().At(0).Type()) {
+			if r0 := ResultValue(c, 0); r0 != nil {
+				if k, isNil := c16NilFact(b, r0); k && !isNil {
+					return true, ""
+				}
+			}
+		}
+		if discarded {
+			return false, "the error result of the call is discarded"
+		}
+		return false, "the site is not on the err==nil edge of the call"
+	case c16KindBool:
+		if ind == nil {
+			return false, "the boolean result of the call is ignored"
+		}
+		if k, val := c16BoolFact(b, ind); k {
+			if val {
+				return true, ""
+			}
+			return false, "the site is on the false edge of the call"
+		}
+		return false, "the site is not on the true edge of the call"
+	default:
+		if k, isNil := c16NilFact(b, c); k && !isNil {
+			return true, ""
+		}
+		return false, "the result of the call is not known non-nil at the site"
+	}
+}
+
+// ---------------------------------------------------------------------------
+// Effective bodies: a root function plus, transitively, the statically called
+// functions it admits, each call site giving a context in which the callee's
+// parameters stand for the call's arguments and the call's results for the
+// callee's returned values.
+
+const c16MaxDepth = 5
+
+type c16Ctx struct {
+	parent *c16Ctx
+	call   ssa.CallInstruction // the call (or defer) in parent.fn that enters fn; nil for a root or detached context
+	fn     *ssa.Function
+	depth  int
+	kids   map[ssa.CallInstruction]*c16Ctx
+}
+
+type c16CV struct {
+	ctx *c16Ctx
+	v   ssa.Value
+}
+
+type c16Site struct {
+	ctx *c16Ctx
+	in  ssa.Instruction
+}
+
+type c16Eff struct {
+	s     *c16State
+	root  *c16Ctx
+	admit func(*ssa.Function) bool
+	det   map[*ssa.Function]*c16Ctx
+	ctxs  []*c16Ctx
+	exits map[*c16Ctx][]c16Exit
+	memo  map[c16MemoKey]c16MemoVal
+}
+
+type c16MemoKey struct {
+	ev          c16Event
+	h           *c16Ctx
+	successOnly bool
+}
+
+type c16MemoVal struct {
+	ok  bool
+	why string
+}
+
+// eff returns the effective body rooted at fn. Callees are admitted when they
+// live in fn's package and, outside package jsonsign, mention a VerifyRequest.
+func (s *c16State) eff(fn *ssa.Function) *c16Eff {
+	if e := s.effs[fn]; e != nil {
+		return e
+	}
+	pkg := TopFunc(fn).Pkg
+	all := c16InPkg(fn, c16Pkg)
+	e := &c16Eff{s: s, det: map[*ssa.Function]*c16Ctx{}, exits: map[*c16Ctx][]c16Exit{}, memo: map[c16MemoKey]c16MemoVal{}}
+	e.admit = func(f *ssa.Function) bool {
+		return TopFunc(f).Pkg == pkg && pkg != nil && (all || s.vrFuncs[f])
+	}
+	e.root = &c16Ctx{fn: fn, kids: map[ssa.CallInstruction]*c16Ctx{}}
+	s.effs[fn] = e
+	return e
+}
+
+func (e *c16Eff) detached(fn *ssa.Function) *c16Ctx {
+	if fn == e.root.fn {
+		return e.root
+	}
+	if c := e.det[fn]; c != nil {
+		return c
+	}
+	c := &c16Ctx{fn: fn, kids: map[ssa.CallInstruction]*c16Ctx{}}
+	e.det[fn] = c
+	return c
+}
+
+// child returns the context entered by call (a *ssa.Call or *ssa.Defer of
+// ctx.fn), or nil when the callee is not followed.
+func (e *c16Eff) child(ctx *c16Ctx, call ssa.CallInstruction) *c16Ctx {
+	if k, ok := ctx.kids[call]; ok {
+		return k
+	}
+	var k *c16Ctx
+	cc := call.Common()
+	if !cc.IsInvoke() && call.Parent() == ctx.fn && ctx.depth < c16MaxDepth {
+		f := (CallSite{ctx.fn, call}).Callee()
+		if f != nil && f.Blocks != nil && e.admit(f) && len(f.Params) == len(cc.Args) {
+			rec := false
+			for c := ctx; c != nil; c = c.parent {
+				if c.fn == f {
+					rec = true
+				}
+			}
+			if !rec {
+				k = &c16Ctx{parent: ctx, call: call, fn: f, depth: ctx.depth + 1, kids: map[ssa.CallInstruction]*c16Ctx{}}
+			}
+		}
+	}
+	ctx.kids[call] = k
+	return k
+}
+
+// contexts enumerates the root and every context reached through plain calls.
+func (e *c16Eff) contexts() []*c16Ctx {
+	if e.ctxs != nil {
+		return e.ctxs
+	}
+	e.ctxs = []*c16Ctx{e.root}
+	for i := 0; i < len(e.ctxs) && len(e.ctxs) < 500; i++ {
+		c := e.ctxs[i]
+		for _, b := range c.fn.Blocks {
+			for _, in := range b.Instrs {
+				if call, ok := in.(*ssa.Call); ok {
+					if k := e.child(c, call); k != nil {
+						e.ctxs = append(e.ctxs, k)
+					}
+				}
+			}
+		}
+	}
+	return e.ctxs
+}
+
+// calls lists the call sites of the effective body satisfying pred.
+func (e *c16Eff) calls(pred func(CallSite) bool) []c16Site {
+	var out []c16Site
+	for _, c := range e.contexts() {
+		for _, b := range c.fn.Blocks {
+			for _, in := range b.Instrs {
+				if ci, ok := in.(ssa.CallInstruction); ok && pred(CallSite{c.fn, ci}) {
+					out = append(out, c16Site{c, in})
+				}
+			}
+		}
 	}
 	return out
 }
 
-// c16IntFact: what the dominating branches at block b say about `v == k`.
-func c16IntFact(b *ssa.BasicBlock, match func(ssa.Value) bool, k int64) (known, equal bool) {
-	for _, f := range FactsAt(b) {
-		bo, ok := f.Cond.(*ssa.BinOp)
-		if !ok {
-			continue
-		}
-		x, y, op := bo.X, bo.Y, bo.Op
-		if _, isConst := x.(*ssa.Const); isConst {
-			x, y = y, x
-			switch op {
-			case token.LSS:
-				op = token.GTR
-			case token.GTR:
-				op = token.LSS
-			case token.LEQ:
-				op = token.GEQ
-			case token.GEQ:
-				op = token.LEQ
-			}
-		}
-		c, ok := ConstInt(y)
-		if !ok || !match(x) {
-			continue
-		}
-		switch {
-		case op == token.EQL && c == k:
-			return true, f.Val
-		case op == token.NEQ && c == k:
-			return true, !f.Val
-		case op == token.LSS && c == k+1 && !f.Val && k == -1: // !(v < 0) for k == -1: v >= 0
-			return true, false
-		case op == token.GEQ && c == k+1 && f.Val && k == -1: // v >= 0
-			return true, false
-		case op == token.GTR && c == k && f.Val && k == -1: // v > -1
-			return true, false
+// sitesOf lists the contexts in which instruction in occurs.
+func (e *c16Eff) sitesOf(in ssa.Instruction) []c16Site {
+	var out []c16Site
+	for _, c := range e.contexts() {
+		if c.fn == in.Parent() {
+			out = append(out, c16Site{c, in})
 		}
 	}
-	return false, false
+	return out
 }
 
-// ---------------------------------------------------------------------------
-// J-verify: chain
+func c16Chain(c *c16Ctx) []*c16Ctx {
+	var out []*c16Ctx
+	for ; c != nil; c = c.parent {
+		out = append(out, c)
+	}
+	for i, j := 0, len(out)-1; i < j; i, j = i+1, j-1 {
+		out[i], out[j] = out[j], out[i]
+	}
+	return out
+}
 
-// c16RW computes the request fields fn reads and writes through base
-// (bound 1 through same-package callees that get base as receiver).
-func (s *c16State) rw(fn *ssa.Function, base ssa.Value, depth int, r, w map[string]bool) {
-	for _, b := range fn.Blocks {
-		for _, in := range b.Instrs {
-			switch x := in.(type) {
-			case *ssa.FieldAddr:
-				if NamedOf(x.X.Type()) != s.vrT || originValue(x.X) != base {
+func c16Owner(v ssa.Value) *ssa.Function {
+	switch x := v.(type) {
+	case *ssa.Parameter:
+		return x.Parent()
+	case *ssa.FreeVar:
+		return x.Parent()
+	case ssa.Instruction:
+		return x.Parent()
+	}
+	return nil
+}
+
+// ctxFor: the context, seen from ctx, of a value owned by fn (an enclosing
+// function when ctx is a literal that captured it).
+func (e *c16Eff) ctxFor(ctx *c16Ctx, fn *ssa.Function) *c16Ctx {
+	if fn == nil || ctx.fn == fn {
+		return ctx
+	}
+	for c := ctx; c != nil; c = c.parent {
+		if c.fn == fn {
+			return c
+		}
+	}
+	return e.detached(fn)
+}
+
+func (e *c16Eff) argOf(ctx *c16Ctx, prm *ssa.Parameter) (c16CV, bool) {
+	if ctx.call == nil || prm.Parent() != ctx.fn {
+		return c16CV{}, false
+	}
+	args := ctx.call.Common().Args
+	for i, q := range ctx.fn.Params {
+		if q == prm && i < len(args) {
+			return c16CV{ctx.parent, args[i]}, true
+		}
+	}
+	return c16CV{}, false
+}
+
+// origin resolves a value to where it comes from: through value-preserving
+// wrappers and single-assignment variables (originValue), from a callee's
+// parameter to the caller's argument, and from the result of a followed call
+// to the one non-zero value the callee returns there.
+func (e *c16Eff) origin(cv c16CV) c16CV { return e.originN(cv, 0) }
+
+func (e *c16Eff) originN(cv c16CV, depth int) c16CV {
+	for i := 0; i < 40 && cv.v != nil; i++ {
+		v := originValue(cv.v)
+		cv = c16CV{e.ctxFor(cv.ctx, c16Owner(v)), v}
+		switch x := v.(type) {
+		case *ssa.Parameter:
+			if a, ok := e.argOf(cv.ctx, x); ok {
+				cv = a
+				continue
+			}
+		case *ssa.Call, *ssa.Extract:
+			if call, idx := c16CallResult(x); call != nil && depth < 12 {
+				if r, ok := e.uniqueResult(cv.ctx, call, idx, depth+1); ok {
+					cv = r
 					continue
 				}
-				name := fieldName(x.X.Type(), x.Field)
-				if refs := x.Referrers(); refs != nil {
-					for _, u := range nonDebug(*refs) {
-						if st, ok := u.(*ssa.Store); ok && st.Addr == ssa.Value(x) {
-							w[name] = true
-						} else {
-							r[name] = true
+			}
+		}
+		return cv
+	}
+	return cv
+}
+
+func (e *c16Eff) uniqueResult(ctx *c16Ctx, call *ssa.Call, idx, depth int) (c16CV, bool) {
+	child := e.child(ctx, call)
+	if child == nil {
+		return c16CV{}, false
+	}
+	var uniq *c16CV
+	for _, ri := range c16Returns(child.fn) {
+		if idx >= len(ri.Results) {
+			return c16CV{}, false
+		}
+		r := e.originN(c16CV{child, ri.Results[idx]}, depth)
+		if c16IsZeroConst(r.v) || e.zeroResult(r, 0) {
+			continue
+		}
+		if uniq == nil {
+			rr := r
+			uniq = &rr
+		} else if *uniq != r {
+			return c16CV{}, false
+		}
+	}
+	if uniq == nil {
+		return c16CV{}, false
+	}
+	return *uniq, true
+}
+
+// zeroResult: cv is the result of a followed call that yields the zero value
+// on every return (such as the string result of a closure that only builds an
+// error).
+func (e *c16Eff) zeroResult(cv c16CV, depth int) bool {
+	call, idx := c16CallResult(cv.v)
+	if call == nil || depth > 3 {
+		return false
+	}
+	child := e.child(cv.ctx, call)
+	if child == nil {
+		return false
+	}
+	rets := c16Returns(child.fn)
+	for _, ri := range rets {
+		if idx >= len(ri.Results) {
+			return false
+		}
+		r := e.origin(c16CV{child, ri.Results[idx]})
+		if !c16IsZeroConst(r.v) && !e.zeroResult(r, depth+1) {
+			return false
+		}
+	}
+	return len(rets) > 0
+}
+
+// slice returns the backward dependence slice of a value across contexts:
+// operands, all stores to loaded variables, arguments behind parameters and
+// returned values behind the results of followed calls.
+func (e *c16Eff) slice(start c16CV) []c16CV {
+	seen := map[c16CV]bool{}
+	var out []c16CV
+	add := func(cv c16CV) bool {
+		if seen[cv] {
+			return false
+		}
+		seen[cv] = true
+		out = append(out, cv)
+		return true
+	}
+	var walk func(cv c16CV, d int)
+	walk = func(cv c16CV, d int) {
+		if cv.v == nil || d > 120 {
+			return
+		}
+		cv.ctx = e.ctxFor(cv.ctx, c16Owner(cv.v))
+		if !add(cv) {
+			return
+		}
+		switch x := cv.v.(type) {
+		case *ssa.Parameter:
+			if a, ok := e.argOf(cv.ctx, x); ok {
+				walk(a, d+1)
+			}
+			return
+		case *ssa.FreeVar:
+			if b := bindingOf(x); b != nil {
+				walk(c16CV{cv.ctx, b}, d+1)
+			}
+			return
+		case *ssa.UnOp:
+			if x.Op == token.MUL {
+				if cell, ok := varOf(x.X); ok {
+					if cell != x.X {
+						add(c16CV{e.ctxFor(cv.ctx, c16Owner(cell)), cell})
+					}
+					for _, st := range storesTo(cell) {
+						walk(c16CV{e.ctxFor(cv.ctx, st.Parent()), st.Val}, d+1)
+					}
+				}
+			}
+		case *ssa.Call, *ssa.Extract:
+			if call, idx := c16CallResult(x); call != nil {
+				if child := e.child(cv.ctx, call); child != nil {
+					// the returned values, and (what a callee does to its arguments
+					// through calls is not followed) the arguments as well
+					add(c16CV{cv.ctx, call})
+					for _, ri := range c16Returns(child.fn) {
+						if idx < len(ri.Results) {
+							walk(c16CV{child, ri.Results[idx]}, d+1)
+						}
+					}
+					for _, a := range call.Call.Args {
+						walk(c16CV{cv.ctx, a}, d+1)
+					}
+					return
+				}
+			}
+		}
+		if in, ok := cv.v.(ssa.Instruction); ok {
+			for _, op := range in.Operands(nil) {
+				if *op != nil {
+					walk(c16CV{cv.ctx, *op}, d+1)
+				}
+			}
+		}
+	}
+	walk(start, 0)
+	return out
+}
+
+// c16Use is a terminal use of a tracked value: an instruction that consumes
+// it other than by passing it on.
+type c16Use struct {
+	site c16Site
+	val  ssa.Value // the tracked value as the instruction sees it
+}
+
+// uses tracks a value forward: through conversions, phis, local variables,
+// into followed callees (argument -> parameter) and back out (return ->
+// call result).
+func (e *c16Eff) uses(start c16CV) []c16Use {
+	seen := map[c16CV]bool{}
+	var out []c16Use
+	var walk func(cv c16CV)
+	walk = func(cv c16CV) {
+		if seen[cv] {
+			return
+		}
+		seen[cv] = true
+		refs := cv.v.Referrers()
+		if refs == nil {
+			return
+		}
+		for _, u := range nonDebug(*refs) {
+			switch x := u.(type) {
+			case *ssa.MakeInterface:
+				walk(c16CV{cv.ctx, x})
+			case *ssa.ChangeType:
+				walk(c16CV{cv.ctx, x})
+			case *ssa.ChangeInterface:
+				walk(c16CV{cv.ctx, x})
+			case *ssa.Phi:
+				walk(c16CV{cv.ctx, x})
+			case *ssa.Store:
+				al, isAl := x.Addr.(*ssa.Alloc)
+				if x.Val == cv.v && isAl && plainVariable(al) && al.Referrers() != nil {
+					for _, r := range nonDebug(*al.Referrers()) {
+						if ld, ok := r.(*ssa.UnOp); ok && ld.Op == token.MUL {
+							walk(c16CV{cv.ctx, ld})
+						} else if _, isMC := r.(*ssa.MakeClosure); isMC {
+							out = append(out, c16Use{c16Site{cv.ctx, r}, cv.v})
+						}
+					}
+					continue
+				}
+				out = append(out, c16Use{c16Site{cv.ctx, u}, cv.v})
+			case *ssa.Return:
+				call, isCall := cv.ctx.call.(*ssa.Call)
+				if cv.ctx.call == nil || !isCall {
+					out = append(out, c16Use{c16Site{cv.ctx, u}, cv.v})
+					continue
+				}
+				for i, rv := range x.Results {
+					if rv != cv.v {
+						continue
+					}
+					if len(x.Results) == 1 {
+						walk(c16CV{cv.ctx.parent, call})
+					} else if cr := call.Referrers(); cr != nil {
+						for _, r := range *cr {
+							if ex, ok := r.(*ssa.Extract); ok && ex.Index == i {
+								walk(c16CV{cv.ctx.parent, ex})
+							}
 						}
 					}
 				}
-			case ssa.CallInstruction:
-				c := CallSite{fn, x}
-				f := c.Callee()
-				if f == nil || depth >= 1 || f.Blocks == nil || !c16InPkg(f, c16Pkg) {
+			case *ssa.Call:
+				if child := e.child(cv.ctx, x); child != nil {
+					for i, a := range x.Call.Args {
+						if a == cv.v && i < len(child.fn.Params) {
+							walk(c16CV{child, child.fn.Params[i]})
+						}
+					}
 					continue
 				}
-				if rv := s.vrRecv(f); rv != nil && len(c.Args()) > 0 && originValue(c.Args()[0]) == base {
-					s.rw(f, rv, depth+1, r, w)
-				}
+				out = append(out, c16Use{c16Site{cv.ctx, u}, cv.v})
+			default:
+				out = append(out, c16Use{c16Site{cv.ctx, u}, cv.v})
 			}
 		}
 	}
+	walk(start)
+	return out
 }
 
-var c16Steps = []string{"ParseSigMap", "ParsePayloadMap", "FindAndParsePublicKeyBlob", "VerifySignature"}
+// ---------------------------------------------------------------------------
+// success exits
 
-func (s *c16State) ruleChain() {
-	p, r := s.p, s.r
-	verify := p.Func(c16Pkg, "VerifyRequest", "Verify")
-	recv := ssa.Value(verify.Params[0])
-	key := FuncKey(verify)
-	succ := c16SuccessReturns(verify)
-	if len(succ) == 0 {
-		r.Violation("J-verify", key+"#success-return", p.Pos(verify.Pos()), "Verify has no return whose error may be nil: nothing ever verifies")
+// c16Exit is a way for a context's function to return reporting success.
+// When the function forwards a followed callee's verdict the exit lies inside
+// the callee; sites then lists the return points from the innermost outwards,
+// and anything that holds at one of them holds when the function returns.
+type c16Exit struct {
+	ret    *ssa.Return // the return of the function the exits were asked for
+	inner  *ssa.Return // the innermost return (for messages)
+	sites  []c16Site
+	val    c16CV     // the indicator value at the innermost site (nil value when there is no indicator)
+	assume []c16Fact // the indicator is this condition, known true on success
+	via    []c16Site // followed calls whose verdict this exit forwards: the exit is their success
+}
+
+type c16Fact struct {
+	ctx  *c16Ctx
+	cond ssa.Value
+	val  bool
+}
+
+func (e *c16Eff) allReturns(ctx *c16Ctx) []c16Exit {
+	var out []c16Exit
+	for _, ri := range c16Returns(ctx.fn) {
+		out = append(out, c16Exit{ret: ri.Ret, inner: ri.Ret, sites: []c16Site{{ctx, ri.Ret}}})
 	}
-	stepCalls := map[string][]*ssa.Call{}
-	stepFn := map[string]*ssa.Function{}
-	for _, name := range c16Steps {
-		f := p.Func(c16Pkg, "VerifyRequest", name)
-		stepFn[name] = f
-		for _, c := range CallsIn(verify, false) {
-			if c.Value() != nil && c.Callee() == f && originValue(c.Args()[0]) == recv {
-				stepCalls[name] = append(stepCalls[name], c.Value())
+	return out
+}
+
+func (e *c16Eff) successExits(ctx *c16Ctx) []c16Exit {
+	if x, ok := e.exits[ctx]; ok {
+		return x
+	}
+	e.exits[ctx] = nil // recursion guard
+	kind, idx := c16SuccessKind(ctx.fn.Signature)
+	var out []c16Exit
+	if kind == c16KindNone {
+		out = e.allReturns(ctx)
+	} else {
+		for _, ri := range c16Returns(ctx.fn) {
+			out = append(out, e.classify(ctx, ri.Ret, ri.Results[idx], ri.Ret.Block(), kind, 0)...)
+		}
+	}
+	e.exits[ctx] = out
+	return out
+}
+
+func (e *c16Eff) classify(ctx *c16Ctx, ret *ssa.Return, v ssa.Value, at *ssa.BasicBlock, kind, depth int) []c16Exit {
+	mk := func() c16Exit {
+		return c16Exit{ret: ret, inner: ret, val: c16CV{ctx, v}, sites: []c16Site{{ctx, c16Last(at)}}}
+	}
+	switch kind {
+	case c16KindErr:
+		if IsNilConst(v) {
+			return []c16Exit{mk()}
+		}
+		if k, isNil := c16NilFact(at, v); k && !isNil {
+			return nil
+		}
+		if isNonNilErrorExpr(v) || c16KnownNonNilReload(v, at) {
+			return nil
+		}
+	case c16KindBool:
+		if b, ok := c16BoolConst(v); ok {
+			if b {
+				return []c16Exit{mk()}
+			}
+			return nil
+		}
+		if k, val := c16BoolFact(at, v); k {
+			if val {
+				return []c16Exit{mk()}
+			}
+			return nil
+		}
+	case c16KindNilable:
+		if IsNilConst(v) {
+			return nil
+		}
+		if k, isNil := c16NilFact(at, v); k && isNil {
+			return nil
+		}
+	}
+	if ph, ok := v.(*ssa.Phi); ok && depth < 6 {
+		var out []c16Exit
+		for i, ev := range ph.Edges {
+			if i < len(ph.Block().Preds) {
+				out = append(out, e.classify(ctx, ret, ev, ph.Block().Preds[i], kind, depth+1)...)
 			}
 		}
-		construct := key + "#success-requires:" + name
-		if len(stepCalls[name]) == 0 {
-			r.Violation("J-verify", construct, p.Pos(verify.Pos()), "Verify no longer calls "+name+" on its receiver: a document is accepted without that step")
-			continue
-		}
-		bad := ""
-		for _, nr := range succ {
-			at := c16Last(nr.From)
-			ok, why := false, ""
-			for _, c := range stepCalls[name] {
-				if o, w := c16Succeeded(c, at); o {
-					ok = true
-				} else {
-					why = w
+		return out
+	}
+	ov := originValue(v)
+	if call, ridx := c16CallResult(ov); call != nil && call.Parent() == ctx.fn && depth < 8 {
+		f := (CallSite{ctx.fn, call}).Callee()
+		if f != nil && f.Blocks != nil {
+			child := e.child(ctx, call)
+			if child == nil {
+				if c16AlwaysFails(f, ridx, kind, 0) {
+					return nil
 				}
+				return []c16Exit{mk()}
 			}
-			if !ok {
-				bad = fmt.Sprintf("the return at line %d may carry a nil error although %s has not succeeded (%s)", p.Fset.Position(nr.Ret.Pos()).Line, name, why)
-			}
-		}
-		r.Check(bad == "", "J-verify", construct, p.Pos(stepCalls[name][0].Pos()),
-			fmt.Sprintf("all %d possibly-nil-error return(s) are dominated by the success edge of %s on the receiver", len(succ), name), bad)
-	}
-	// order from data dependence
-	type rwSet struct{ r, w map[string]bool }
-	sets := map[string]rwSet{}
-	for _, name := range c16Steps {
-		st := rwSet{map[string]bool{}, map[string]bool{}}
-		s.rw(stepFn[name], stepFn[name].Params[0], 0, st.r, st.w)
-		sets[name] = st
-	}
-	dep := func(a, b string) []string {
-		var fs []string
-		for f := range sets[a].w {
-			if sets[b].r[f] {
-				fs = append(fs, f)
-			}
-		}
-		sort.Strings(fs)
-		return fs
-	}
-	for _, a := range c16Steps {
-		for _, b := range c16Steps {
-			if a == b {
-				continue
-			}
-			fs := dep(a, b)
-			if len(fs) == 0 || len(stepCalls[a]) == 0 || len(stepCalls[b]) == 0 {
-				continue
-			}
-			construct := key + "#order:" + a + "<" + b
-			if back := dep(b, a); len(back) > 0 {
-				r.Undecided("J-verify", construct, p.Pos(verify.Pos()), fmt.Sprintf("%s writes %v read by %s and %s writes %v read by %s: no order can be derived", a, fs, b, b, back, a))
-				continue
-			}
-			bad := ""
-			for _, cb := range stepCalls[b] {
-				ok := false
-				for _, ca := range stepCalls[a] {
-					if Precedes(ca, cb) {
-						ok = true
+			var sub []c16Exit
+			forwards := false
+			if k2, i2 := c16SuccessKind(f.Signature); k2 == kind && i2 == ridx {
+				sub = e.successExits(child)
+				forwards = true
+			} else {
+				for _, ri := range c16Returns(f) {
+					if ridx < len(ri.Results) {
+						sub = append(sub, e.classify(child, ri.Ret, ri.Results[ridx], ri.Ret.Block(), kind, depth+1)...)
 					}
 				}
-				if !ok {
-					bad = fmt.Sprintf("%s (line %d) reads %v before %s has written it on every path", b, p.Fset.Position(cb.Pos()).Line, fs, a)
-				}
 			}
-			r.Check(bad == "", "J-verify", construct, p.Pos(stepCalls[b][0].Pos()),
-				fmt.Sprintf("%s writes %v, which %s reads; every call of %s is preceded by %s", a, fs, b, b, a), bad)
+			var out []c16Exit
+			for _, x := range sub {
+				x2 := x
+				x2.ret = ret
+				x2.sites = append(append([]c16Site(nil), x.sites...), c16Site{ctx, c16Last(at)})
+				if forwards {
+					x2.via = append(append([]c16Site(nil), x.via...), c16Site{ctx, call})
+				}
+				out = append(out, x2)
+			}
+			return out
 		}
 	}
+	if kind == c16KindBool {
+		switch ov.(type) {
+		case *ssa.BinOp, *ssa.UnOp:
+			x := mk()
+			x.assume = []c16Fact{{ctx, ov, true}}
+			return []c16Exit{x}
+		}
+	}
+	return []c16Exit{mk()}
 }
+
+// successRets: the returns of ctx.fn that may report success.
+func (e *c16Eff) successRets(ctx *c16Ctx) map[*ssa.Return]bool {
+	out := map[*ssa.Return]bool{}
+	for _, x := range e.successExits(ctx) {
+		out[x.ret] = true
+	}
+	return out
+}
+
+// ---------------------------------------------------------------------------
+// events and success dominance across contexts
+
+const (
+	c16EvExec = iota // the instruction has been executed
+	c16EvOK          // the call has been executed and reported success
+)
+
+type c16Event struct {
+	site c16Site
+	kind int
+}
+
+func c16LocalHolds(ev c16Event, at ssa.Instruction, exitVal ssa.Value) (bool, string) {
+	if ev.kind == c16EvOK {
+		if call, ok := ev.site.in.(*ssa.Call); ok {
+			return c16CallOK(call, at, exitVal)
+		}
+		return false, "the call is started with go/defer"
+	}
+	if c16Precedes(ev.site.in, at) {
+		return true, ""
+	}
+	return false, "it does not precede the site on every path"
+}
+
+// succAt: every path (of the effective body) to site `at` has passed through
+// the event. exitVal: see c16CallOK; only meaningful when `at` is a return.
+func (e *c16Eff) succAt(ev c16Event, at c16Site, exitVal ssa.Value) (bool, string) {
+	ca, cb := c16Chain(ev.site.ctx), c16Chain(at.ctx)
+	if ca[0] != cb[0] {
+		return false, "the two sites do not lie in one effective body"
+	}
+	k := 0
+	for k < len(ca) && k < len(cb) && ca[k] == cb[k] {
+		k++
+	}
+	var repB ssa.Instruction = at.in
+	if len(cb) > k {
+		repB = cb[k].call
+		exitVal = nil
+	}
+	if len(ca) == k {
+		return c16LocalHolds(ev, repB, exitVal)
+	}
+	h := ca[k]
+	call, isCall := h.call.(*ssa.Call)
+	if !isCall {
+		return false, "it happens in a deferred call"
+	}
+	name := FuncKey(h.fn)
+	if ok, _ := c16CallOK(call, repB, exitVal); ok {
+		if ok2, why := e.allExits(h, ev, true); ok2 {
+			return true, ""
+		} else {
+			return false, why
+		}
+	}
+	if !c16Precedes(call, repB) {
+		return false, "the call of " + name + " does not precede the site on every path"
+	}
+	ok, why := e.allExits(h, ev, false)
+	if !ok {
+		why = "the site is not known to be on the success edge of the call of " + name + ", and " + why
+	}
+	return ok, why
+}
+
+func (e *c16Eff) allExits(h *c16Ctx, ev c16Event, successOnly bool) (bool, string) {
+	key := c16MemoKey{ev, h, successOnly}
+	if m, ok := e.memo[key]; ok {
+		return m.ok, m.why
+	}
+	e.memo[key] = c16MemoVal{false, "recursive"}
+	var exits []c16Exit
+	if successOnly {
+		exits = e.successExits(h)
+	} else {
+		exits = e.allReturns(h)
+	}
+	res := c16MemoVal{true, ""}
+	for _, x := range exits {
+		if ok, why := e.succAtExit(ev, x); !ok {
+			what := "successful return"
+			if !successOnly {
+				what = "return"
+			}
+			res = c16MemoVal{false, fmt.Sprintf("in %s the %s at line %d is reached although %s", FuncKey(h.fn), what, e.s.line(x.inner.Pos()), why)}
+			break
+		}
+	}
+	e.memo[key] = res
+	return res.ok, res.why
+}
+
+func (e *c16Eff) succAtExit(ev c16Event, x c16Exit) (bool, string) {
+	why := ""
+	if ev.kind == c16EvOK {
+		for _, v := range x.via {
+			if v == ev.site {
+				return true, ""
+			}
+		}
+	}
+	for i, st := range x.sites {
+		var ev0 ssa.Value
+		if i == 0 && x.val.ctx == st.ctx {
+			ev0 = x.val.v
+		}
+		if ok, w := e.succAt(ev, st, ev0); ok {
+			return true, ""
+		} else if why == "" {
+			why = w
+		}
+	}
+	return false, why
+}
+
+// factHolds: a branch condition accepted by pred is known at the site - from
+// the site's own function, from a caller up the context chain, or from a
+// followed call preceding the site all of whose (successful) returns are
+// under such a condition. stop bounds the walk up the chain (nil: to the root).
+func (e *c16Eff) factHolds(pred func(ctx *c16Ctx, cond ssa.Value, val bool) bool, at c16Site, stop *c16Ctx, budget int) bool {
+	if budget <= 0 {
+		return false
+	}
+	rep := at.in
+	for ctx := at.ctx; ctx != nil; ctx = ctx.parent {
+		for _, f := range c16Facts(rep.Block()) {
+			if pred(ctx, f.Cond, f.Val) {
+				return true
+			}
+		}
+		for _, b := range ctx.fn.Blocks {
+			for _, in := range b.Instrs {
+				hc, ok := in.(*ssa.Call)
+				if !ok || in == rep || !c16Precedes(hc, rep) {
+					continue
+				}
+				child := e.child(ctx, hc)
+				if child == nil {
+					continue
+				}
+				var exits []c16Exit
+				if ok, _ := c16CallOK(hc, rep, nil); ok {
+					exits = e.successExits(child)
+				} else {
+					exits = e.allReturns(child)
+				}
+				all := len(exits) > 0
+				for _, x := range exits {
+					if !e.factHoldsExit(pred, x, child, budget-1) {
+						all = false
+						break
+					}
+				}
+				if all {
+					return true
+				}
+			}
+		}
+		if ctx == stop || ctx.call == nil {
+			break
+		}
+		rep = ctx.call
+	}
+	return false
+}
+
+func (e *c16Eff) factHoldsExit(pred func(ctx *c16Ctx, cond ssa.Value, val bool) bool, x c16Exit, stop *c16Ctx, budget int) bool {
+	for _, a := range x.assume {
+		if pred(a.ctx, a.cond, a.val) {
+			return true
+		}
+	}
+	for _, st := range x.sites {
+		if e.factHolds(pred, st, stop, budget) {
+			return true
+		}
+	}
+	return false
+}
+
+// unguarded reports whether the target site can be reached from the root's
+// entry along a path that crosses no guard edge. Followed calls are entered;
+// when every unguarded way out of a callee is a return that reports failure,
+// only the failure edge of a later test of its verdict is explored.
+func (e *c16Eff) unguarded(guard func(ctx *c16Ctx, b *ssa.BasicBlock, succ int) bool, target c16Site) bool {
+	failed := map[ssa.Value]int{} // indicator value -> kind, for calls known failed on every unguarded path
+	onlySucc := func(cond ssa.Value) int {
+		cond, neg := c16StripNot(cond, false)
+		o := originValue(cond)
+		if k, ok := failed[o]; ok && k == c16KindBool {
+			if neg { // cond is !ind, ind false -> cond true
+				return 0
+			}
+			return 1
+		}
+		bo, ok := cond.(*ssa.BinOp)
+		if !ok || (bo.Op != token.EQL && bo.Op != token.NEQ) {
+			return -1
+		}
+		var other ssa.Value
+		if IsNilConst(bo.Y) {
+			other = bo.X
+		} else if IsNilConst(bo.X) {
+			other = bo.Y
+		} else {
+			return -1
+		}
+		k, ok := failed[originValue(other)]
+		if !ok {
+			return -1
+		}
+		var val bool
+		switch k {
+		case c16KindErr: // the error is non-nil
+			val = bo.Op == token.NEQ
+		case c16KindNilable: // the result is nil
+			val = bo.Op == token.EQL
+		default:
+			return -1
+		}
+		if neg {
+			val = !val
+		}
+		if val {
+			return 0
+		}
+		return 1
+	}
+	var reach func(ctx *c16Ctx) (bool, map[*ssa.Return]bool)
+	reach = func(ctx *c16Ctx) (bool, map[*ssa.Return]bool) {
+		rets := map[*ssa.Return]bool{}
+		seen := map[*ssa.BasicBlock]bool{}
+		var walk func(b *ssa.BasicBlock) bool
+		walk = func(b *ssa.BasicBlock) bool {
+			if seen[b] {
+				return false
+			}
+			seen[b] = true
+			only := -1
+			for _, in := range b.Instrs {
+				if ctx == target.ctx && in == target.in {
+					return true
+				}
+				switch x := in.(type) {
+				case *ssa.Call:
+					child := e.child(ctx, x)
+					if child == nil {
+						continue
+					}
+					hit, rr := reach(child)
+					if hit {
+						return true
+					}
+					if len(rr) == 0 {
+						return false
+					}
+					if kind, idx := c16SuccessKind(child.fn.Signature); kind != c16KindNone {
+						ok := e.successRets(child)
+						allFail := true
+						for r := range rr {
+							if ok[r] {
+								allFail = false
+							}
+						}
+						if ind := ResultValue(x, idx); allFail && ind != nil {
+							failed[ind] = kind
+						}
+					}
+				case *ssa.Return:
+					rets[x] = true
+					return false
+				case *ssa.Panic:
+					return false
+				case *ssa.If:
+					only = onlySucc(x.Cond)
+				}
+			}
+			for i, sc := range b.Succs {
+				if (only >= 0 && i != only) || guard(ctx, b, i) {
+					continue
+				}
+				if walk(sc) {
+					return true
+				}
+			}
+			return false
+		}
+		if len(ctx.fn.Blocks) == 0 {
+			return false, rets
+		}
+		return walk(ctx.fn.Blocks[0]), rets
+	}
+	hit, _ := reach(e.root)
+	return hit
+}
+
+// ---------------------------------------------------------------------------
+// request-field helpers on effective bodies
+
+// fieldLoad: cv is a load of a field of the VerifyRequest `base` (any request
+// when base.v == nil).
+func (s *c16State) fieldLoad(e *c16Eff, cv c16CV, base c16CV) (string, c16Site, bool) {
+	o := e.origin(cv)
+	ld, ok := o.v.(*ssa.UnOp)
+	if !ok || ld.Op != token.MUL {
+		return "", c16Site{}, false
+	}
+	fa, ok := ld.X.(*ssa.FieldAddr)
+	if !ok || NamedOf(fa.X.Type()) != s.vrT {
+		return "", c16Site{}, false
+	}
+	if base.v != nil && e.origin(c16CV{o.ctx, fa.X}) != base {
+		return "", c16Site{}, false
+	}
+	return fieldName(fa.X.Type(), fa.Field), c16Site{o.ctx, ld}, true
+}
+
+// sliceFields lists the fields of the request `base` whose address occurs in
+// the backward slice of cv, with the loads found.
+func (s *c16State) sliceFields(e *c16Eff, cv c16CV, base c16CV) ([]string, map[string][]c16Site) {
+	loads := map[string][]c16Site{}
+	set := map[string]bool{}
+	for _, x := range e.slice(cv) {
+		switch y := x.v.(type) {
+		case *ssa.FieldAddr:
+			if NamedOf(y.X.Type()) == s.vrT && (base.v == nil || e.origin(c16CV{x.ctx, y.X}) == base) {
+				set[fieldName(y.X.Type(), y.Field)] = true
+			}
+		case *ssa.UnOp:
+			if fa, ok := y.X.(*ssa.FieldAddr); ok && y.Op == token.MUL && NamedOf(fa.X.Type()) == s.vrT && (base.v == nil || e.origin(c16CV{x.ctx, fa.X}) == base) {
+				f := fieldName(fa.X.Type(), fa.Field)
+				loads[f] = append(loads[f], c16Site{x.ctx, y})
+			}
+		}
+	}
+	var out []string
+	for k := range set {
+		out = append(out, k)
+	}
+	sort.Strings(out)
+	return out, loads
+}
+
+// c16ES is an instruction seen in one context of one effective body.
+type c16ES struct {
+	e    *c16Eff
+	site c16Site
+}
+
+// sitesFor: the contexts in which a module instruction is judged: its
+// occurrences inside the effective bodies of the property's entry points, or
+// else the effective body of its own (outermost) function.
+func (s *c16State) sitesFor(in ssa.Instruction) []c16ES {
+	var out []c16ES
+	for _, e := range []*c16Eff{s.eff(s.verifyFn()), s.eff(s.p.Func(c16Pkg, "", "NewVerificationRequest"))} {
+		for _, st := range e.sitesOf(in) {
+			out = append(out, c16ES{e, st})
+		}
+	}
+	if len(out) > 0 {
+		return out
+	}
+	return s.localSites(in)
+}
+
+func (s *c16State) localSites(in ssa.Instruction) []c16ES {
+	var out []c16ES
+	e := s.eff(TopFunc(in.Parent()))
+	for _, st := range e.sitesOf(in) {
+		out = append(out, c16ES{e, st})
+	}
+	if len(out) == 0 {
+		out = append(out, c16ES{e, c16Site{e.detached(in.Parent()), in}})
+	}
+	return out
+}
+
+func (s *c16State) storeBase(es c16ES, st *ssa.Store) c16CV {
+	return es.e.origin(c16CV{es.site.ctx, st.Addr.(*ssa.FieldAddr).X})
+}
+
+// storesOn: the sites in e of the module-wide stores to field f whose request is base.
+func (s *c16State) storesOn(e *c16Eff, f string, base c16CV) []c16Site {
+	var out []c16Site
+	for _, st := range s.ix.stores[f] {
+		for _, site := range e.sitesOf(st) {
+			if e.origin(c16CV{site.ctx, st.Addr.(*ssa.FieldAddr).X}) == base {
+				out = append(out, site)
+			}
+		}
+	}
+	return out
+}
+
+// ---------------------------------------------------------------------------
+// J-verify: the signature check in Verify's effective body
+
+func c16IsCryptoVerify(c CallSite) bool {
+	return c.Value() != nil && (c.IsStatic(c16PktPath, "PublicKey", "VerifySignature") || c.IsStatic(c16PktPath, "PublicKey", "VerifySignatureV3"))
+}
+
+func (s *c16State) ruleVerify() {
+	p, r := s.p, s.r
+	verify := s.verifyFn()
+	V := s.eff(verify)
+	s.V = V
+	s.recv = c16CV{V.root, verify.Params[0]}
+	key := FuncKey(verify)
+	exits := V.successExits(V.root)
+	if len(exits) == 0 {
+		r.Violation("J-verify", key+"#success-return", p.Pos(verify.Pos()), "Verify has no return whose error may be nil: nothing ever verifies")
+	}
+	s.crypto = V.calls(c16IsCryptoVerify)
+	construct := key + "#success-requires:signature-check"
+	if len(s.crypto) == 0 {
+		r.Violation("J-verify", construct, p.Pos(verify.Pos()), "no call of (*packet.PublicKey).VerifySignature is reachable from Verify through statically called functions of the package: nothing checks the signature")
+		return
+	}
+	bad := ""
+	for _, x := range exits {
+		ok, why := false, ""
+		for _, c := range s.crypto {
+			if o, w := V.succAtExit(c16Event{c, c16EvOK}, x); o {
+				ok = true
+			} else {
+				why = w
+			}
+		}
+		if !ok {
+			bad = fmt.Sprintf("the return at line %d may carry a nil error although (*packet.PublicKey).VerifySignature has not succeeded on every path to it (%s)", s.line(x.inner.Pos()), why)
+		}
+	}
+	r.Check(bad == "", "J-verify", construct, p.Pos(s.crypto[0].in.Pos()),
+		fmt.Sprintf("all %d possibly-nil-error return(s) of Verify are dominated by err==nil of (*packet.PublicKey).VerifySignature (called in %s)", len(exits), FuncKey(s.crypto[0].ctx.fn)), bad)
+	for _, c := range s.crypto {
+		s.checkCryptoArgs(c, key)
+	}
+}
+
+func (s *c16State) checkCryptoArgs(c c16Site, key string) {
+	p, r, V := s.p, s.r, s.V
+	call := c.in.(*ssa.Call)
+	args := call.Call.Args // key, hash, signature
+	site := p.Pos(call.Pos())
+	// hash
+	construct := key + "#signature-check:hash-input"
+	hv := V.origin(c16CV{c.ctx, args[1]})
+	if _, isCall := hv.v.(*ssa.Call); !isCall {
+		r.Undecided("J-verify", construct, site, "the hash handed to the verification is not created by a call in Verify's effective body; its earlier content is unknown")
+	} else {
+		fields := map[string]bool{}
+		before := 0
+		bad, und := "", ""
+		for _, u := range V.uses(hv) {
+			if u.site.in == c.in {
+				continue
+			}
+			ci, ok := u.site.in.(ssa.CallInstruction)
+			if !ok {
+				und = fmt.Sprintf("the hash is used by %T at line %d, which the analysis does not follow", u.site.in, s.line(u.site.in.Pos()))
+				continue
+			}
+			cc := ci.Common()
+			if !(cc.IsInvoke() && cc.Value == u.val) {
+				und = fmt.Sprintf("the hash is passed to %s, which the analysis does not follow", (CallSite{u.site.ctx.fn, ci}).CalleeKey())
+				continue
+			}
+			switch cc.Method.Name() {
+			case "Write":
+				f, _, ok := s.fieldLoad(V, c16CV{u.site.ctx, cc.Args[0]}, s.recv)
+				if !ok {
+					bad = fmt.Sprintf("the hash is fed (line %d) with bytes that are not a field of the request being verified", s.line(u.site.in.Pos()))
+					continue
+				}
+				fields[f] = true
+				if _, isCall := u.site.in.(*ssa.Call); isCall {
+					if ok, _ := V.succAt(c16Event{u.site, c16EvExec}, c, nil); ok {
+						before++
+					}
+				}
+			case "Size", "BlockSize":
+			default:
+				und = "the hash method " + cc.Method.Name() + " is called; its effect on the digest is not modelled"
+			}
+		}
+		var fl []string
+		for f := range fields {
+			fl = append(fl, f)
+		}
+		sort.Strings(fl)
+		switch {
+		case bad != "":
+			r.Violation("J-verify", construct, site, bad)
+		case und != "":
+			r.Undecided("J-verify", construct, site, und)
+		case before == 0:
+			r.Violation("J-verify", construct, site, "no Write of a request field into the hash precedes the verification: the signature is checked over nothing")
+		case len(fl) != 1:
+			r.Violation("J-verify", construct, site, fmt.Sprintf("the hash is fed from several request fields %v; exactly the payload bytes must be hashed", fl))
+		default:
+			s.payloadField = fl[0]
+			r.OK("J-verify", construct, site, fmt.Sprintf("the hash is created in %s and fed only by Write(vr.%s), %d time(s) before the verification", FuncKey(hv.ctx.fn), fl[0], before))
+		}
+	}
+	// signature packet
+	construct = key + "#signature-check:sig-source"
+	sf, _ := s.sliceFields(V, c16CV{c.ctx, args[2]}, s.recv)
+	switch len(sf) {
+	case 0:
+		r.Violation("J-verify", construct, site, "the signature packet handed to the verification does not derive from any field of the request")
+	case 1:
+		s.sigField = sf[0]
+		r.OK("J-verify", construct, site, "the signature packet derives from request field "+sf[0]+" only")
+	default:
+		r.Undecided("J-verify", construct, site, fmt.Sprintf("the signature packet derives from several request fields %v", sf))
+	}
+	// key
+	construct = key + "#signature-check:key-source"
+	if f, _, ok := s.fieldLoad(V, c16CV{c.ctx, args[0]}, s.recv); ok {
+		s.keyField = f
+		r.OK("J-verify", construct, site, "the verifying key is the request field "+f)
+	} else {
+		r.Violation("J-verify", construct, site, "the verifying key is not a field of the request being verified")
+	}
+}
+
+// ---------------------------------------------------------------------------
+// J-verify: hash algorithm guard
+
+// ruleHashGuard: in Verify's effective body, crypto.Hash.New (which panics for
+// an algorithm that is not linked in) is reached only through an edge on which
+// the hash id was found equal to a constant.
+func (s *c16State) ruleHashGuard() {
+	p, r, V := s.p, s.r, s.V
+	key := FuncKey(s.verifyFn()) + "#signature-check:hash-algorithm-guard"
+	news := V.calls(func(c CallSite) bool { return c.Value() != nil && c.IsStatic("crypto", "Hash", "New") })
+	if len(news) == 0 {
+		r.OKTable("J-verify", key, p.Pos(s.verifyFn().Pos()), "Verify's effective body does not instantiate a hash from an attacker-chosen id")
+		return
+	}
+	// two hash-id values are the same when they have one origin, or are loads of the same field of one object
+	sameID := func(a, b c16CV) bool {
+		oa, ob := V.origin(a), V.origin(b)
+		if oa == ob {
+			return true
+		}
+		la, ok1 := oa.v.(*ssa.UnOp)
+		lb, ok2 := ob.v.(*ssa.UnOp)
+		if !ok1 || !ok2 || la.Op != token.MUL || lb.Op != token.MUL {
+			return false
+		}
+		fa, ok1 := la.X.(*ssa.FieldAddr)
+		fb, ok2 := lb.X.(*ssa.FieldAddr)
+		if !ok1 || !ok2 || fa.Field != fb.Field || !types.Identical(fa.X.Type(), fb.X.Type()) {
+			return false
+		}
+		return V.origin(c16CV{oa.ctx, fa.X}) == V.origin(c16CV{ob.ctx, fb.X})
+	}
+	for _, c := range news {
+		id := c16CV{c.ctx, c.in.(*ssa.Call).Call.Args[0]}
+		// implies: the boolean v having truth value want implies that the hash id
+		// equals some constant - a comparison, a && / || of such (phi), or the
+		// verdict of a followed predicate all of whose returns imply it.
+		var implies func(ctx *c16Ctx, v ssa.Value, want bool, depth int) bool
+		edgeGuarded := func(ctx *c16Ctx, pred, blk *ssa.BasicBlock, depth int) bool {
+			if ifi, ok := c16Last(pred).(*ssa.If); ok && len(pred.Succs) == 2 && pred.Succs[0] != pred.Succs[1] {
+				for i, sc := range pred.Succs {
+					if sc == blk && implies(ctx, ifi.Cond, i == 0, depth+1) {
+						return true
+					}
+				}
+			}
+			for _, f := range FactsAt(pred) {
+				if implies(ctx, f.Cond, f.Val, depth+1) {
+					return true
+				}
+			}
+			return false
+		}
+		implies = func(ctx *c16Ctx, v ssa.Value, want bool, depth int) bool {
+			if depth > 8 {
+				return false
+			}
+			v, want = c16StripNot(v, want)
+			switch x := v.(type) {
+			case *ssa.BinOp:
+				if x.Op != token.EQL && x.Op != token.NEQ {
+					return false
+				}
+				a, b := x.X, x.Y
+				if _, isC := a.(*ssa.Const); isC {
+					a, b = b, a
+				}
+				if _, ok := ConstInt(b); !ok || !sameID(c16CV{ctx, a}, id) {
+					return false
+				}
+				return (x.Op == token.EQL) == want
+			case *ssa.Phi:
+				for i, ev := range x.Edges {
+					if i >= len(x.Block().Preds) {
+						return false
+					}
+					if cv, isC := c16BoolConst(ev); isC {
+						if cv != want || edgeGuarded(ctx, x.Block().Preds[i], x.Block(), depth) {
+							continue
+						}
+						return false
+					}
+					if !implies(ctx, ev, want, depth+1) {
+						return false
+					}
+				}
+				return len(x.Edges) > 0
+			case *ssa.Call, *ssa.Extract:
+				call, idx := c16CallResult(x)
+				if call == nil || call.Parent() != ctx.fn {
+					return false
+				}
+				child := V.child(ctx, call)
+				if child == nil {
+					return false
+				}
+				rets := c16Returns(child.fn)
+				for _, ri := range rets {
+					if idx >= len(ri.Results) {
+						return false
+					}
+					if cv, isC := c16BoolConst(ri.Results[idx]); isC && cv != want {
+						continue
+					}
+					if !implies(child, ri.Results[idx], want, depth+1) {
+						return false
+					}
+				}
+				return len(rets) > 0
+			}
+			return false
+		}
+		guard := func(ctx *c16Ctx, d *ssa.BasicBlock, succ int) bool {
+			ifi, ok := c16Last(d).(*ssa.If)
+			return ok && implies(ctx, ifi.Cond, succ == 0, 0)
+		}
+		r.Check(!V.unguarded(guard, c), "J-verify", key, p.Pos(c.in.Pos()),
+			"every path of Verify's effective body to Hash.New passes an edge on which the signature packet's hash id equals a constant (white list)",
+			"Hash.New is reachable without the signature packet's hash id having been found equal to an allowed constant: an id whose implementation is not linked in makes Hash.New panic, and weak digests are accepted")
+	}
+}
+
+// ---------------------------------------------------------------------------
+// the error mirror
 
 // findErrChannel establishes (without emitting an obligation) whether Verify
 // mirrors a non-nil error result into an error-typed field of the request: a
-// literal deferred before the first step stores the named error result into
-// that field under the fact "result != nil". Callers may then test that field
-// instead of the error result.
+// call deferred before every failing return (other than one that returns that
+// very field) stores the named error result into the field under the fact
+// "result != nil". Callers may then test that field instead of the error result.
 func (s *c16State) findErrChannel() {
 	verify := s.verifyFn()
-	recv := ssa.Value(verify.Params[0])
-	var firstStep ssa.Instruction
-	for _, c := range CallsIn(verify, false) {
-		if f := c.Callee(); f != nil && s.vrRecv(f) != nil && c.Value() != nil && firstStep == nil {
-			firstStep = c.Instr
-		}
+	V := s.eff(verify)
+	recv := c16CV{V.root, verify.Params[0]}
+	eidx := ErrResultIndex(verify)
+	if eidx < 0 {
+		return
 	}
 	for _, d := range DeferredCalls(verify) {
-		lit := ClosureOf(d)
-		if lit == nil || firstStep == nil || !Precedes(d.Instr, firstStep) {
+		df, ok := d.Instr.(*ssa.Defer)
+		if !ok {
 			continue
 		}
-		for _, b := range lit.Blocks {
+		dc := V.child(V.root, df)
+		if dc == nil {
+			continue
+		}
+		cellOf := func(addr ssa.Value) ssa.Value {
+			if prm, ok := addr.(*ssa.Parameter); ok {
+				if a, ok := V.argOf(dc, prm); ok {
+					addr = a.v
+				}
+			}
+			cell, _ := varOf(addr)
+			return cell
+		}
+		for _, b := range dc.fn.Blocks {
 			for _, in := range b.Instrs {
 				st, ok := in.(*ssa.Store)
 				if !ok {
 					continue
 				}
 				fa, ok := st.Addr.(*ssa.FieldAddr)
-				if !ok || NamedOf(fa.X.Type()) != s.vrT || originValue(fa.X) != recv || !isErrorType(st.Val.Type()) {
+				if !ok || NamedOf(fa.X.Type()) != s.vrT || !isErrorType(st.Val.Type()) || V.origin(c16CV{dc, fa.X}) != recv {
 					continue
 				}
 				ld, ok := st.Val.(*ssa.UnOp)
 				if !ok || ld.Op != token.MUL {
 					continue
 				}
-				cell, ok := varOf(ld.X)
-				al, isAl := cell.(*ssa.Alloc)
-				if !ok || !isAl || al.Parent() != verify {
+				al, isAl := cellOf(ld.X).(*ssa.Alloc)
+				if !isAl || al.Parent() != verify {
 					continue
 				}
-				// the cell is Verify's error result variable: every return loads it
-				isResult := false
+				field := fieldName(fa.X.Type(), fa.Field)
+				// the cell is Verify's error result variable, and every return that may fail
+				// without returning the field itself comes after the defer
+				isResult, covered := false, true
 				for _, rb := range verify.Blocks {
-					if ret, ok := c16Last(rb).(*ssa.Return); ok && len(ret.Results) > 0 {
-						if rl, ok := ret.Results[len(ret.Results)-1].(*ssa.UnOp); ok && rl.X == ssa.Value(al) {
-							isResult = true
-						}
+					ret, ok := c16Last(rb).(*ssa.Return)
+					if !ok || rb == verify.Recover || eidx >= len(ret.Results) {
+						continue
 					}
+					if rl, ok := ret.Results[eidx].(*ssa.UnOp); ok && rl.X == ssa.Value(al) {
+						isResult = true
+					}
+					if Precedes(df, ret) {
+						continue
+					}
+					rv := resolveReturnValue(ret.Results[eidx], ret)
+					if IsNilConst(rv) {
+						continue
+					}
+					if f, _, ok := s.fieldLoad(V, c16CV{V.root, rv}, recv); ok && f == field {
+						continue
+					}
+					covered = false
 				}
 				// under "result != nil"
 				nonNil := false
-				for _, f := range FactsAt(b) {
-					if bo, ok := f.Cond.(*ssa.BinOp); ok && (bo.Op == token.NEQ) == f.Val && (bo.Op == token.NEQ || bo.Op == token.EQL) {
-						var o ssa.Value
-						if IsNilConst(bo.Y) {
-							o = bo.X
-						} else if IsNilConst(bo.X) {
-							o = bo.Y
-						}
-						if ol, ok := o.(*ssa.UnOp); ok && ol.Op == token.MUL {
-							if c2, ok := varOf(ol.X); ok && c2 == cell {
-								nonNil = true
-							}
-						}
+				for _, f := range c16Facts(b) {
+					cond, val := c16StripNot(f.Cond, f.Val)
+					bo, ok := cond.(*ssa.BinOp)
+					if !ok || (bo.Op != token.NEQ && bo.Op != token.EQL) || (bo.Op == token.NEQ) != val {
+						continue
+					}
+					var o ssa.Value
+					if IsNilConst(bo.Y) {
+						o = bo.X
+					} else if IsNilConst(bo.X) {
+						o = bo.Y
+					}
+					if ol, ok := o.(*ssa.UnOp); ok && ol.Op == token.MUL && cellOf(ol.X) == ssa.Value(al) {
+						nonNil = true
 					}
 				}
-				if isResult && nonNil {
-					s.errField = fieldName(fa.X.Type(), fa.Field)
+				if isResult && covered && nonNil {
+					s.errField = field
 				}
 			}
 		}
@@ -640,13 +1972,14 @@ func (s *c16State) findErrChannel() {
 }
 
 // errFieldNilAt: a dominating branch at instruction at found the request's
-// mirrored error field nil, on a load made after call c.
+// mirrored error field nil, on a load made after call c (same function).
 func (s *c16State) errFieldNilAt(v ssa.Value, c *ssa.Call, at ssa.Instruction) bool {
 	if s.errField == "" || !Precedes(c, at) {
 		return false
 	}
-	for _, f := range FactsAt(at.Block()) {
-		bo, ok := f.Cond.(*ssa.BinOp)
+	for _, f := range c16Facts(at.Block()) {
+		cond, val := c16StripNot(f.Cond, f.Val)
+		bo, ok := cond.(*ssa.BinOp)
 		if !ok || (bo.Op != token.EQL && bo.Op != token.NEQ) {
 			continue
 		}
@@ -658,7 +1991,7 @@ func (s *c16State) errFieldNilAt(v ssa.Value, c *ssa.Call, at ssa.Instruction) b
 		} else {
 			continue
 		}
-		if (bo.Op == token.EQL) != f.Val {
+		if (bo.Op == token.EQL) != val {
 			continue // says non-nil
 		}
 		ld, ok := o.(*ssa.UnOp)
@@ -677,122 +2010,6 @@ func (s *c16State) errFieldNilAt(v ssa.Value, c *ssa.Call, at ssa.Instruction) b
 }
 
 // ---------------------------------------------------------------------------
-// J-verify: VerifySignature
-
-func c16IsCryptoVerify(c CallSite) bool {
-	return c.Value() != nil && (c.IsStatic(c16PktPath, "PublicKey", "VerifySignature") || c.IsStatic(c16PktPath, "PublicKey", "VerifySignatureV3"))
-}
-
-func (s *c16State) ruleVerifySignature() {
-	p, r := s.p, s.r
-	fn := p.Func(c16Pkg, "VerifyRequest", "VerifySignature")
-	recv := ssa.Value(fn.Params[0])
-	key := FuncKey(fn)
-	crypto := FindCalls(fn, false, c16IsCryptoVerify)
-	if len(crypto) == 0 {
-		r.Violation("J-verify", key+"#crypto-verify", p.Pos(fn.Pos()), "VerifySignature contains no call of (*packet.PublicKey).VerifySignature: nothing checks the signature")
-		return
-	}
-	trues := c16MaybeTrueReturns(fn)
-	if len(trues) == 0 {
-		r.Violation("J-verify", key+"#true-return", p.Pos(fn.Pos()), "VerifySignature never returns true")
-	}
-	for _, ret := range trues {
-		ok, why := false, ""
-		for _, c := range crypto {
-			if o, w := SuccessDominates(c.Value(), ret); o {
-				ok = true
-			} else {
-				why = w
-			}
-		}
-		r.Check(ok, "J-verify", key+"#true-return", p.Pos(ret.Pos()),
-			"the possibly-true return is dominated by err==nil of (*packet.PublicKey).VerifySignature",
-			"VerifySignature may return true without a successful (*packet.PublicKey).VerifySignature: "+why)
-	}
-	for _, c := range crypto {
-		args := c.Args()
-		site := p.Pos(c.Pos())
-		// hash
-		hc, isCall := originValue(args[1]).(*ssa.Call)
-		switch {
-		case !isCall:
-			r.Undecided("J-verify", key+"#hash-input", site, "the hash handed to the verification is not created by a call in this function; its earlier content is unknown")
-		default:
-			fields := map[string]bool{}
-			before := 0
-			bad, und := "", ""
-			for _, u := range nonDebug(*hc.Referrers()) {
-				if u == ssa.Instruction(c.Value()) {
-					continue
-				}
-				ci, ok := u.(ssa.CallInstruction)
-				if !ok {
-					und = fmt.Sprintf("the hash is used by %T at line %d, which the analysis does not follow", u, p.Fset.Position(u.Pos()).Line)
-					continue
-				}
-				cc := ci.Common()
-				if !(cc.IsInvoke() && cc.Value == ssa.Value(hc)) {
-					und = fmt.Sprintf("the hash is passed to %s, which the analysis does not follow", (CallSite{fn, ci}).CalleeKey())
-					continue
-				}
-				switch cc.Method.Name() {
-				case "Write":
-					f, ok := s.fieldLoadOn(cc.Args[0], recv)
-					if !ok {
-						bad = fmt.Sprintf("the hash is fed (line %d) with bytes that are not a field of the request being verified", p.Fset.Position(u.Pos()).Line)
-						continue
-					}
-					fields[f] = true
-					if call, ok := u.(*ssa.Call); ok && Precedes(call, c.Value()) {
-						before++
-					}
-				case "Size", "BlockSize":
-				default:
-					und = "the hash method " + cc.Method.Name() + " is called; its effect on the digest is not modelled"
-				}
-			}
-			var fl []string
-			for f := range fields {
-				fl = append(fl, f)
-			}
-			sort.Strings(fl)
-			switch {
-			case bad != "":
-				r.Violation("J-verify", key+"#hash-input", site, bad)
-			case und != "":
-				r.Undecided("J-verify", key+"#hash-input", site, und)
-			case before == 0:
-				r.Violation("J-verify", key+"#hash-input", site, "no Write of a request field into the hash precedes the verification: the signature is checked over nothing")
-			case len(fl) != 1:
-				r.Violation("J-verify", key+"#hash-input", site, fmt.Sprintf("the hash is fed from several request fields %v; exactly the payload bytes must be hashed", fl))
-			default:
-				s.payloadField = fl[0]
-				r.OK("J-verify", key+"#hash-input", site, fmt.Sprintf("the hash is created here and fed only by Write(vr.%s), %d time(s) before the verification", fl[0], before))
-			}
-		}
-		// signature packet
-		sf := s.sliceFields(args[2], recv)
-		switch len(sf) {
-		case 0:
-			r.Violation("J-verify", key+"#sig-source", site, "the signature packet handed to the verification does not derive from any field of the request")
-		case 1:
-			s.sigField = sf[0]
-			r.OK("J-verify", key+"#sig-source", site, "the signature packet derives from request field "+sf[0]+" only")
-		default:
-			r.Undecided("J-verify", key+"#sig-source", site, fmt.Sprintf("the signature packet derives from several request fields %v", sf))
-		}
-		// key
-		if f, ok := s.fieldLoadOn(args[0], recv); ok {
-			s.keyField = f
-			r.OK("J-verify", key+"#key-source", site, "the verifying key is the request field "+f)
-		} else {
-			r.Violation("J-verify", key+"#key-source", site, "the verifying key is not a field of the request being verified")
-		}
-	}
-}
-
-// ---------------------------------------------------------------------------
 // J-verify: writers
 
 func (s *c16State) isFetch(c *ssa.Call) bool {
@@ -806,7 +2023,7 @@ func (s *c16State) isFetch(c *ssa.Call) bool {
 func (s *c16State) ruleKeyWriters() {
 	p, r := s.p, s.r
 	if s.keyField == "" {
-		r.Undecided("J-verify", s.fieldKey("?key")+"#writers", "?", "the key field could not be identified in VerifySignature")
+		r.Undecided("J-verify", s.fieldKey("?key")+"#writers", "?", "the key field could not be identified at the signature check")
 		return
 	}
 	construct := s.fieldKey(s.keyField) + "#writers"
@@ -819,119 +2036,103 @@ func (s *c16State) ruleKeyWriters() {
 		r.Violation("J-verify", construct, "?", "nothing ever stores the verifying key")
 		return
 	}
-	fns := map[*ssa.Function]bool{}
 	for _, st := range sts {
-		fn := st.Parent()
-		site := p.Pos(st.Pos())
-		recv := s.vrRecv(fn)
-		if recv == nil || originValue(st.Addr.(*ssa.FieldAddr).X) != recv {
-			r.Violation("J-verify", construct, site, fmt.Sprintf("%s stores the verifying key of a request; only a VerifyRequest method may, on its own receiver", FuncKey(fn)))
-			continue
-		}
-		fns[fn] = true
-		var fetches []*ssa.Call
 		bad := ""
-		for _, x := range c16Slice(st.Val) {
-			call, ok := x.(*ssa.Call)
-			if !ok {
-				continue
-			}
-			if s.isFetch(call) {
-				fetches = append(fetches, call)
-			}
-			if _, hasErr, _ := ErrValue(call); hasErr {
-				if ok, w := SuccessDominates(call, st); !ok {
-					bad = fmt.Sprintf("the key stored at line %d derives from %s whose failure is not excluded (%s)", p.Fset.Position(st.Pos()).Line, (CallSite{fn, call}).CalleeKey(), w)
+		for _, es := range s.sitesFor(st) {
+			e := es.e
+			base := s.storeBase(es, st)
+			var fetches []c16Site
+			for _, cv := range e.slice(c16CV{es.site.ctx, st.Val}) {
+				call, ok := cv.v.(*ssa.Call)
+				if !ok {
+					continue
+				}
+				cs := c16Site{cv.ctx, call}
+				if s.isFetch(call) {
+					fetches = append(fetches, cs)
+				}
+				if kind, _ := c16SuccessKind(call.Call.Signature()); kind == c16KindErr {
+					if ok, w := e.succAt(c16Event{cs, c16EvOK}, es.site, nil); !ok {
+						bad = fmt.Sprintf("the key stored at line %d derives from %s whose failure is not excluded (%s)", s.line(st.Pos()), (CallSite{cv.ctx.fn, call}).CalleeKey(), w)
+					}
 				}
 			}
-		}
-		if len(fetches) == 0 && bad == "" {
-			bad = "the stored key does not derive from a blob.Fetcher.Fetch"
-		}
-		for _, f := range fetches {
-			sf, ok := s.fieldLoadOn(f.Call.Args[1], recv)
-			if !ok {
-				bad = "the public key blob is fetched under a ref that is not a field of the request"
-				continue
+			if len(fetches) == 0 && bad == "" {
+				bad = "the stored key does not derive from a blob.Fetcher.Fetch"
 			}
-			if s.signerField != "" && s.signerField != sf {
-				bad = "public key blobs are fetched under different request fields: " + s.signerField + ", " + sf
-			}
-			s.signerField = sf
-		}
-		r.Check(bad == "", "J-verify", construct, site,
-			fmt.Sprintf("stored in %s from Fetch(vr.%s) on the success edge of the fetch and of every fallible call in between", FuncKey(fn), s.signerField), bad)
-	}
-	for fn := range fns {
-		bad := ""
-		succ := c16SuccessReturns(fn)
-		for _, nr := range succ {
-			ok := false
-			for _, st := range sts {
-				if st.Parent() == fn && Precedes(st, c16Last(nr.From)) {
-					ok = true
+			for _, f := range fetches {
+				fc := f.in.(*ssa.Call)
+				sf, _, ok := s.fieldLoad(e, c16CV{f.ctx, fc.Call.Args[1]}, base)
+				if !ok {
+					bad = "the public key blob is fetched under a ref that is not a field of the request whose key is stored"
+					continue
 				}
-			}
-			if !ok {
-				bad = fmt.Sprintf("the return at line %d may carry a nil error although the key has not been stored", p.Fset.Position(nr.Ret.Pos()).Line)
+				if s.signerField != "" && s.signerField != sf {
+					bad = "public key blobs are fetched under different request fields: " + s.signerField + ", " + sf
+				}
+				s.signerField = sf
+				s.fetchCalls = append(s.fetchCalls, fc)
 			}
 		}
-		r.Check(bad == "", "J-verify", FuncKey(fn)+"#nil-return-sets-key", p.Pos(fn.Pos()),
-			fmt.Sprintf("all %d possibly-nil-error return(s) are preceded by the store of the key", len(succ)), bad)
+		r.Check(bad == "", "J-verify", construct, p.Pos(st.Pos()),
+			fmt.Sprintf("stored in %s from Fetch(vr.%s) of the same request, on the success edge of the fetch and of every fallible call in between", FuncKey(st.Parent()), s.signerField), bad)
 	}
 }
 
-// c16Unmarshal describes a json.Unmarshal(vr.<src>, &cell) call.
+// c16Unmarshal describes a json.Unmarshal(vr.<src>, &cell) call site.
 type c16Unmarshal struct {
-	call *ssa.Call
-	src  string     // request field holding the bytes
-	cell *ssa.Alloc // variable receiving the map
+	site c16Site
+	src  string // request field holding the bytes
+	cell c16CV  // variable receiving the map (an Alloc)
 }
 
-func (s *c16State) unmarshals(fn *ssa.Function, recv ssa.Value) []c16Unmarshal {
+func (s *c16State) unmarshals(e *c16Eff, base c16CV) []c16Unmarshal {
 	var out []c16Unmarshal
-	for _, c := range CallsIn(fn, false) {
-		if c.Value() == nil || !c.IsStatic("encoding/json", "", "Unmarshal") {
-			continue
-		}
-		src, ok := s.fieldLoadOn(c.Args()[0], recv)
-		cell, ok2 := originValue(c.Args()[1]).(*ssa.Alloc)
-		if ok && ok2 {
-			out = append(out, c16Unmarshal{c.Value(), src, cell})
+	for _, c := range e.calls(func(c CallSite) bool { return c.Value() != nil && c.IsStatic("encoding/json", "", "Unmarshal") }) {
+		args := c.in.(*ssa.Call).Call.Args
+		src, _, ok := s.fieldLoad(e, c16CV{c.ctx, args[0]}, base)
+		cell := e.origin(c16CV{c.ctx, args[1]})
+		if _, isAl := cell.v.(*ssa.Alloc); ok && isAl {
+			out = append(out, c16Unmarshal{c, src, cell})
 		}
 	}
 	return out
 }
 
-// parsedFrom: the value v (stored at st) derives from the map cell of exactly
-// one Unmarshal of fn, through a Lookup under a constant key.
-func (s *c16State) parsedFrom(v ssa.Value, fn *ssa.Function, recv ssa.Value) (um *c16Unmarshal, keys []string, why string) {
-	ums := s.unmarshals(fn, recv)
-	sl := c16Slice(v)
-	in := map[ssa.Value]bool{}
+// loadOfCell: v is a load of the variable cell.
+func (s *c16State) loadOfCell(e *c16Eff, v c16CV, cell c16CV) bool {
+	o := e.origin(v)
+	ld, ok := o.v.(*ssa.UnOp)
+	return ok && ld.Op == token.MUL && ld.X == cell.v && o.ctx == cell.ctx
+}
+
+// parsedFrom: the value v derives from the map cell of exactly one Unmarshal
+// of a field of request base, through a Lookup under a constant key.
+func (s *c16State) parsedFrom(e *c16Eff, v c16CV, base c16CV) (um *c16Unmarshal, keys []string, why string) {
+	ums := s.unmarshals(e, base)
+	sl := e.slice(v)
+	in := map[c16CV]bool{}
 	for _, x := range sl {
 		in[x] = true
 	}
 	for i := range ums {
 		if in[ums[i].cell] {
-			if um != nil {
+			if um != nil && um.cell != ums[i].cell {
 				return nil, nil, "the value derives from several Unmarshal targets"
 			}
 			um = &ums[i]
 		}
 	}
 	if um == nil {
-		return nil, nil, "the value does not derive from a map json.Unmarshal'ed from a field of the request"
+		return nil, nil, "the value does not derive from a map json.Unmarshal'ed from a field of the same request"
 	}
 	ks := map[string]bool{}
 	for _, x := range sl {
-		if lk, ok := x.(*ssa.Lookup); ok {
-			if ld, ok := lk.X.(*ssa.UnOp); ok && ld.Op == token.MUL && ld.X == ssa.Value(um.cell) {
-				if k, ok := ConstString(lk.Index); ok {
-					ks[k] = true
-				} else {
-					return um, nil, "the map is indexed by a non-constant key"
-				}
+		if lk, ok := x.v.(*ssa.Lookup); ok && s.loadOfCell(e, c16CV{x.ctx, lk.X}, um.cell) {
+			if k, ok := ConstString(lk.Index); ok {
+				ks[k] = true
+			} else {
+				return um, nil, "the map is indexed by a non-constant key"
 			}
 		}
 	}
@@ -958,30 +2159,30 @@ func (s *c16State) ruleSignerAndPayloadWriters() {
 		}
 		if why == "" {
 			for _, st := range sts {
-				fn := st.Parent()
-				site := p.Pos(st.Pos())
-				recv := s.vrRecv(fn)
-				if recv == nil || originValue(st.Addr.(*ssa.FieldAddr).X) != recv {
-					r.Violation("J-verify", construct, site, fmt.Sprintf("%s stores the signer ref of a request; only a VerifyRequest method may, on its own receiver: the key would no longer be the one the payload names", FuncKey(fn)))
-					continue
-				}
-				um, keys, bad := s.parsedFrom(st.Val, fn, recv)
-				if bad == "" && len(keys) != 1 {
-					bad = fmt.Sprintf("the signer ref is read under %d constant keys %v of the payload map; exactly one is expected", len(keys), keys)
-				}
-				if bad == "" {
-					if ok, w := SuccessDominates(um.call, st); !ok {
-						bad = "the signer ref is stored although json.Unmarshal of the payload may have failed: " + w
+				bad := ""
+				for _, es := range s.sitesFor(st) {
+					base := s.storeBase(es, st)
+					um, keys, b := s.parsedFrom(es.e, c16CV{es.site.ctx, st.Val}, base)
+					if b == "" && len(keys) != 1 {
+						b = fmt.Sprintf("the signer ref is read under %d constant keys %v of the payload map; exactly one is expected", len(keys), keys)
+					}
+					if b == "" {
+						if ok, w := es.e.succAt(c16Event{um.site, c16EvOK}, es.site, nil); !ok {
+							b = "the signer ref is stored although json.Unmarshal of the payload may have failed: " + w
+						}
+					}
+					if b == "" {
+						if s.bpjField != "" && s.bpjField != um.src {
+							b = "signer refs are parsed from different request fields: " + s.bpjField + ", " + um.src
+						}
+						s.bpjField, s.signerKey = um.src, keys[0]
+					}
+					if b != "" {
+						bad = b + " (in " + FuncKey(st.Parent()) + ": the key would no longer be the one the payload names)"
 					}
 				}
-				if bad == "" {
-					if s.bpjField != "" && s.bpjField != um.src {
-						bad = "signer refs are parsed from different request fields: " + s.bpjField + ", " + um.src
-					}
-					s.bpjField, s.signerKey = um.src, keys[0]
-				}
-				r.Check(bad == "", "J-verify", construct, site,
-					fmt.Sprintf("stored in %s from key %q of the map Unmarshal'ed from vr.%s, on the Unmarshal success edge", FuncKey(fn), s.signerKey, s.bpjField), bad)
+				r.Check(bad == "", "J-verify", construct, p.Pos(st.Pos()),
+					fmt.Sprintf("stored in %s from key %q of the map Unmarshal'ed from vr.%s of the same request, on the Unmarshal success edge", FuncKey(st.Parent()), s.signerKey, s.bpjField), bad)
 			}
 		}
 	}
@@ -996,61 +2197,97 @@ func (s *c16State) ruleSignerAndPayloadWriters() {
 		r.Undecided("J-verify", construct, "?", why)
 		return
 	}
+	type pmStore struct {
+		site c16Site
+		um   c16Unmarshal
+	}
+	var inVerify []pmStore
 	nonNil := 0
 	for _, st := range sts {
 		if IsNilConst(st.Val) {
 			continue
 		}
 		nonNil++
-		fn := st.Parent()
-		site := p.Pos(st.Pos())
-		recv := s.vrRecv(fn)
-		if recv == nil || originValue(st.Addr.(*ssa.FieldAddr).X) != recv {
-			r.Violation("J-verify", construct, site, fmt.Sprintf("%s stores a non-nil PayloadMap; only a VerifyRequest method may, on its own receiver: the exposed fields would not be the signed ones", FuncKey(fn)))
-			continue
-		}
-		bad := "the stored map is not the target of a json.Unmarshal of a request field"
-		for _, um := range s.unmarshals(fn, recv) {
-			linked := false
-			// (a) the stored value is loaded from the Unmarshal target
-			for _, x := range c16Slice(st.Val) {
-				if x == ssa.Value(um.cell) {
-					linked = true
+		bad := ""
+		for _, es := range s.sitesFor(st) {
+			e := es.e
+			base := s.storeBase(es, st)
+			b := "the stored map is not the target of a json.Unmarshal of a field of the same request (in " + FuncKey(st.Parent()) + ": the exposed fields would not be the signed ones)"
+			val := e.origin(c16CV{es.site.ctx, st.Val})
+			for _, um := range s.unmarshals(e, base) {
+				linked := false
+				// (a) the stored value is loaded from the Unmarshal target
+				for _, x := range e.slice(c16CV{es.site.ctx, st.Val}) {
+					if x == um.cell {
+						linked = true
+					}
 				}
-			}
-			// (b) the Unmarshal target was initialised with the stored map (same value or re-load of the field)
-			for _, ist := range storesTo(um.cell) {
-				if !Precedes(ist, um.call) {
+				// (b) the Unmarshal target was initialised with the stored map (same value or re-load of the field)
+				for _, ist := range storesTo(um.cell.v) {
+					is := c16Site{e.ctxFor(um.cell.ctx, ist.Parent()), ist}
+					if ok, _ := e.succAt(c16Event{is, c16EvExec}, um.site, nil); !ok {
+						continue
+					}
+					if e.origin(c16CV{is.ctx, ist.Val}) == val {
+						linked = true
+					}
+					if f, _, ok := s.fieldLoad(e, c16CV{is.ctx, ist.Val}, base); ok && f == pm {
+						if ok, _ := e.succAt(c16Event{es.site, c16EvExec}, is, nil); ok {
+							linked = true
+						}
+					}
+				}
+				if !linked {
 					continue
 				}
-				if ist.Val == st.Val {
-					linked = true
+				b = ""
+				if s.bpjField != "" && um.src != s.bpjField {
+					b = fmt.Sprintf("PayloadMap is parsed from vr.%s but the signer ref from vr.%s: the exposed fields and the verified signer would come from different bytes", um.src, s.bpjField)
+				} else if e == s.V && base == s.recv {
+					inVerify = append(inVerify, pmStore{es.site, um})
 				}
-				if f, ok := s.fieldLoadOn(ist.Val, recv); ok && f == pm && Precedes(st, ist) {
-					linked = true
-				}
+				break
 			}
-			if !linked {
-				continue
+			if b != "" {
+				bad = b
 			}
-			bad = ""
-			if s.bpjField != "" && um.src != s.bpjField {
-				bad = fmt.Sprintf("PayloadMap is parsed from vr.%s but the signer ref from vr.%s: the exposed fields and the verified signer would come from different bytes", um.src, s.bpjField)
-			}
-			break
 		}
-		r.Check(bad == "", "J-verify", construct, site,
-			fmt.Sprintf("the only non-nil PayloadMap is the map Unmarshal'ed from vr.%s in %s", s.bpjField, FuncKey(fn)), bad)
+		r.Check(bad == "", "J-verify", construct, p.Pos(st.Pos()),
+			fmt.Sprintf("the non-nil PayloadMap stored in %s is the map Unmarshal'ed from vr.%s of the same request", FuncKey(st.Parent()), s.bpjField), bad)
 	}
 	if nonNil == 0 {
 		r.Violation("J-verify", construct, "?", "PayloadMap is never populated: a verified document exposes no fields")
+		return
 	}
+	// every successful return of Verify exposes the parsed payload
+	key := FuncKey(s.verifyFn()) + "#success-requires:payload-map"
+	bad := ""
+	exits := s.V.successExits(s.V.root)
+	for _, x := range exits {
+		ok, why := false, "no store of the parsed payload map on Verify's receiver is found in its effective body"
+		for _, ps := range inVerify {
+			o1, w1 := s.V.succAtExit(c16Event{ps.site, c16EvExec}, x)
+			o2, w2 := s.V.succAtExit(c16Event{ps.um.site, c16EvOK}, x)
+			if o1 && o2 {
+				ok = true
+			} else if !o1 {
+				why = "the store of PayloadMap: " + w1
+			} else {
+				why = "json.Unmarshal of the payload: " + w2
+			}
+		}
+		if !ok {
+			bad = fmt.Sprintf("the return at line %d may carry a nil error although the payload map has not been parsed and stored (%s): a verified document would not expose its fields", s.line(x.inner.Pos()), why)
+		}
+	}
+	r.Check(bad == "", "J-verify", key, p.Pos(s.verifyFn().Pos()),
+		fmt.Sprintf("all %d possibly-nil-error return(s) of Verify are preceded by the store of the map Unmarshal'ed from vr.%s, on the Unmarshal success edge", len(exits), s.bpjField), bad)
 }
 
 func (s *c16State) ruleSigWriters() {
 	p, r := s.p, s.r
 	if s.sigField == "" {
-		r.Undecided("J-verify", s.fieldKey("?sig")+"#writers", "?", "the signature field could not be identified in VerifySignature")
+		r.Undecided("J-verify", s.fieldKey("?sig")+"#writers", "?", "the signature field could not be identified at the signature check")
 		return
 	}
 	construct := s.fieldKey(s.sigField) + "#writers"
@@ -1064,59 +2301,69 @@ func (s *c16State) ruleSigWriters() {
 		return
 	}
 	for _, st := range sts {
-		fn := st.Parent()
-		site := p.Pos(st.Pos())
-		recv := s.vrRecv(fn)
-		if recv == nil || originValue(st.Addr.(*ssa.FieldAddr).X) != recv {
-			r.Violation("J-verify", construct, site, fmt.Sprintf("%s stores the signature of a request; only a VerifyRequest method may, on its own receiver", FuncKey(fn)))
-			continue
+		bad, okDetail := "", ""
+		type guardSite struct {
+			es c16ES
+			um *c16Unmarshal
 		}
-		um, keys, bad := s.parsedFrom(st.Val, fn, recv)
-		if bad == "" && len(keys) != 1 {
-			bad = fmt.Sprintf("the signature is read under %d constant keys %v; exactly one is expected", len(keys), keys)
-		}
-		if bad == "" {
-			if ok, w := SuccessDominates(um.call, st); !ok {
-				bad = "the signature is stored although json.Unmarshal of the signature object may have failed: " + w
+		var guards []guardSite
+		for _, es := range s.sitesFor(st) {
+			base := s.storeBase(es, st)
+			um, keys, b := s.parsedFrom(es.e, c16CV{es.site.ctx, st.Val}, base)
+			if b == "" && len(keys) != 1 {
+				b = fmt.Sprintf("the signature is read under %d constant keys %v; exactly one is expected", len(keys), keys)
 			}
-		}
-		if bad != "" {
-			r.Violation("J-verify", construct, site, bad)
-			continue
-		}
-		s.bsField, s.sigKey = um.src, keys[0]
-		r.OK("J-verify", construct, site, fmt.Sprintf("stored in %s from key %q of the map Unmarshal'ed from vr.%s, on the Unmarshal success edge", FuncKey(fn), keys[0], um.src))
-		// exactly-one-key guard on every possibly-true return of this function
-		key := FuncKey(fn) + "#one-key"
-		trues := c16MaybeTrueReturns(fn)
-		if fn.Signature.Results().Len() != 1 || len(trues) == 0 {
-			r.Undecided("J-verify", key, p.Pos(fn.Pos()), "the function storing the signature is not a bool-valued step with a true return")
-			continue
-		}
-		isLen := func(v ssa.Value) bool {
-			call, ok := v.(*ssa.Call)
-			if !ok {
-				return false
+			if b == "" {
+				if ok, w := es.e.succAt(c16Event{um.site, c16EvOK}, es.site, nil); !ok {
+					b = "the signature is stored although json.Unmarshal of the signature object may have failed: " + w
+				}
 			}
-			b, ok := call.Call.Value.(*ssa.Builtin)
-			if !ok || b.Name() != "len" {
-				return false
+			if b != "" {
+				bad = b + " (in " + FuncKey(st.Parent()) + ")"
+				continue
 			}
-			ld, ok := call.Call.Args[0].(*ssa.UnOp)
-			return ok && ld.Op == token.MUL && ld.X == ssa.Value(um.cell)
+			s.bsField, s.sigKey = um.src, keys[0]
+			okDetail = fmt.Sprintf("stored in %s from key %q of the map Unmarshal'ed from vr.%s of the same request, on the Unmarshal success edge", FuncKey(st.Parent()), keys[0], um.src)
+			guards = append(guards, guardSite{es, um})
 		}
-		bad = ""
-		for _, ret := range trues {
-			known, eq := c16IntFact(ret.Block(), isLen, 1)
-			if !(known && eq) {
-				bad = fmt.Sprintf("the return at line %d may be true although the signature object is not known to have exactly one key: unsigned members could ride along after camliSig", p.Fset.Position(ret.Pos()).Line)
+		r.Check(bad == "", "J-verify", construct, p.Pos(st.Pos()), okDetail, bad)
+		// exactly-one-key guard on every successful return of the entry point
+		for _, g := range guards {
+			e, um := g.es.e, g.um
+			key := FuncKey(e.root.fn) + "#success-requires:one-signature-key"
+			exits := e.successExits(e.root)
+			if len(exits) == 0 {
+				r.Undecided("J-verify", key, p.Pos(e.root.fn.Pos()), "the function from which the signature is stored has no successful return")
+				continue
 			}
-			if ok, w := SuccessDominates(um.call, ret); !ok {
-				bad = fmt.Sprintf("the return at line %d may be true although json.Unmarshal of the signature object may have failed: %s", p.Fset.Position(ret.Pos()).Line, w)
+			isLen := func(ctx *c16Ctx, v ssa.Value) bool {
+				o := e.origin(c16CV{ctx, v})
+				call, ok := o.v.(*ssa.Call)
+				if !ok {
+					return false
+				}
+				b, ok := call.Call.Value.(*ssa.Builtin)
+				if !ok || b.Name() != "len" {
+					return false
+				}
+				return s.loadOfCell(e, c16CV{o.ctx, call.Call.Args[0]}, um.cell)
 			}
+			oneKey := func(ctx *c16Ctx, cond ssa.Value, val bool) bool {
+				known, eq := c16IntCond(cond, val, func(v ssa.Value) bool { return isLen(ctx, v) }, 1)
+				return known && eq
+			}
+			bad = ""
+			for _, x := range exits {
+				if !e.factHoldsExit(oneKey, x, nil, 6) {
+					bad = fmt.Sprintf("the return at line %d may report success although the signature object is not known to have exactly one key: unsigned members could ride along after camliSig", s.line(x.inner.Pos()))
+				}
+				if ok, w := e.succAtExit(c16Event{um.site, c16EvOK}, x); !ok {
+					bad = fmt.Sprintf("the return at line %d may report success although json.Unmarshal of the signature object may have failed: %s", s.line(x.inner.Pos()), w)
+				}
+			}
+			r.Check(bad == "", "J-verify", key, p.Pos(um.site.in.Pos()),
+				fmt.Sprintf("all %d successful return(s) of %s are under len(map)==1 on the Unmarshal success edge", len(exits), FuncKey(e.root.fn)), bad)
 		}
-		r.Check(bad == "", "J-verify", key, p.Pos(fn.Pos()),
-			fmt.Sprintf("all %d possibly-true return(s) are under len(map)==1 on the Unmarshal success edge", len(trues)), bad)
 	}
 }
 
@@ -1137,33 +2384,101 @@ func (s *c16State) ruleSignerKeyID() {
 		return
 	}
 	for _, st := range sts {
-		fn := st.Parent()
-		site := p.Pos(st.Pos())
-		recv := s.vrRecv(fn)
-		if recv == nil || originValue(st.Addr.(*ssa.FieldAddr).X) != recv {
-			r.Violation("J-verify", construct, site, fmt.Sprintf("%s stores SignerKeyId of a request; only the verifying method may", FuncKey(fn)))
-			continue
-		}
-		bad := "the store is not dominated by a successful (*packet.PublicKey).VerifySignature"
-		for _, c := range FindCalls(fn, false, c16IsCryptoVerify) {
-			if ok, _ := SuccessDominates(c.Value(), st); ok {
-				bad = ""
-			}
-		}
-		if bad == "" && s.keyField != "" {
-			fromKey := false
-			for _, g := range s.sliceFields(st.Val, recv) {
-				if g == s.keyField {
-					fromKey = true
+		bad := ""
+		for _, es := range s.sitesFor(st) {
+			e := es.e
+			base := s.storeBase(es, st)
+			b := fmt.Sprintf("the store in %s is not dominated by a successful (*packet.PublicKey).VerifySignature; only the verification may set the id", FuncKey(st.Parent()))
+			for _, c := range e.calls(c16IsCryptoVerify) {
+				if ok, _ := e.succAt(c16Event{c, c16EvOK}, es.site, nil); ok {
+					b = ""
 				}
 			}
-			if !fromKey {
-				bad = "the stored id does not derive from the key the signature was verified with (vr." + s.keyField + ")"
+			if b == "" && s.keyField != "" {
+				fromKey := false
+				fs, _ := s.sliceFields(e, c16CV{es.site.ctx, st.Val}, base)
+				for _, g := range fs {
+					if g == s.keyField {
+						fromKey = true
+					}
+				}
+				if !fromKey {
+					b = "the stored id does not derive from the key the signature was verified with (vr." + s.keyField + ")"
+				}
+			}
+			if b != "" {
+				bad = b
 			}
 		}
-		r.Check(bad == "", "J-verify", construct, site,
+		r.Check(bad == "", "J-verify", construct, p.Pos(st.Pos()),
 			"stored on the success edge of the cryptographic verification, derived from vr."+s.keyField, bad)
 	}
+}
+
+// ---------------------------------------------------------------------------
+// J-verify: stores precede the reads that feed the signature check
+
+func (s *c16State) ruleOrder() {
+	p, r, V := s.p, s.r, s.V
+	if len(s.crypto) == 0 {
+		return
+	}
+	key := FuncKey(s.verifyFn())
+	ord := func(label, role, field string, loads []c16Site, reader string) {
+		construct := key + "#order:" + label
+		site := p.Pos(s.crypto[0].in.Pos())
+		if field == "" {
+			r.Undecided("J-verify", construct, site, "the "+role+" field could not be identified by the rules above")
+			return
+		}
+		if len(loads) == 0 {
+			r.Violation("J-verify", construct, site, fmt.Sprintf("no read of vr.%s on Verify's receiver feeds %s in Verify's effective body: %s does not use what this verification parsed", field, reader, reader))
+			return
+		}
+		stores := s.storesOn(V, field, s.recv)
+		bad := ""
+		for _, l := range loads {
+			ok, why := false, "no store of the field on Verify's receiver is found in its effective body"
+			for _, st := range stores {
+				if o, w := V.succAt(c16Event{st, c16EvExec}, l, nil); o {
+					ok = true
+				} else {
+					why = w
+				}
+			}
+			if !ok {
+				bad = fmt.Sprintf("vr.%s is read at line %d for %s although no store of it by this verification precedes on every path (%s): a value preset by the caller, or left from an earlier run, would be used", field, s.line(l.in.Pos()), reader, why)
+			}
+		}
+		r.Check(bad == "", "J-verify", construct, p.Pos(loads[0].in.Pos()),
+			fmt.Sprintf("each of the %d read(s) of vr.%s feeding %s is preceded, on every path of Verify's effective body, by a store of it on the same request", len(loads), field, reader), bad)
+	}
+	var keyLoads, sigLoads, signerLoads []c16Site
+	for _, c := range s.crypto {
+		args := c.in.(*ssa.Call).Call.Args
+		if _, l, ok := s.fieldLoad(V, c16CV{c.ctx, args[0]}, s.recv); ok {
+			keyLoads = append(keyLoads, l)
+		}
+		if s.sigField != "" {
+			_, loads := s.sliceFields(V, c16CV{c.ctx, args[2]}, s.recv)
+			sigLoads = append(sigLoads, loads[s.sigField]...)
+		}
+	}
+	seen := map[*ssa.Call]bool{}
+	for _, fc := range s.fetchCalls {
+		if seen[fc] {
+			continue
+		}
+		seen[fc] = true
+		for _, site := range V.sitesOf(fc) {
+			if _, l, ok := s.fieldLoad(V, c16CV{site.ctx, fc.Call.Args[1]}, s.recv); ok {
+				signerLoads = append(signerLoads, l)
+			}
+		}
+	}
+	ord("key-stored-before-signature-check", "key", s.keyField, keyLoads, "the signature check")
+	ord("signature-stored-before-signature-check", "signature", s.sigField, sigLoads, "the signature check")
+	ord("signer-stored-before-key-fetch", "signer-ref", s.signerField, signerLoads, "the fetch of the public key")
 }
 
 // ---------------------------------------------------------------------------
@@ -1172,30 +2487,74 @@ func (s *c16State) ruleSignerKeyID() {
 func (s *c16State) ruleSplit() {
 	p, r := s.p, s.r
 	fn := p.Func(c16Pkg, "", "NewVerificationRequest")
+	N := s.eff(fn)
 	key := FuncKey(fn)
-	var isDoc func(v ssa.Value, depth int) bool
-	isDoc = func(v ssa.Value, depth int) bool {
+	// the request being built: what the constructor returns
+	var base c16CV
+	for _, ri := range c16Returns(fn) {
+		for _, v := range ri.Results {
+			if NamedOf(v.Type()) == s.vrT {
+				o := N.origin(c16CV{N.root, v})
+				if base.v == nil {
+					base = o
+				} else if base != o {
+					r.Undecided("J-verify", key+"#split-payload", p.Pos(fn.Pos()), "NewVerificationRequest returns different request objects on different paths")
+					return
+				}
+			}
+		}
+	}
+	if base.v == nil {
+		r.Undecided("J-verify", key+"#split-payload", p.Pos(fn.Pos()), "NewVerificationRequest does not return a *VerifyRequest")
+		return
+	}
+	// onlyHere: every module-wide store of f happens in the constructor's effective body, on the request it builds
+	onlyHere := func(f string) ([]c16Site, string) {
+		sts, why := s.writers(f)
+		if why != "" {
+			return nil, why
+		}
+		if len(sts) == 0 {
+			return nil, "field " + f + " is never stored"
+		}
+		var out []c16Site
+		for _, st := range sts {
+			sites := N.sitesOf(st)
+			if len(sites) == 0 {
+				return nil, fmt.Sprintf("field %s is also stored in %s (line %d); the split must be made once, by NewVerificationRequest", f, FuncKey(st.Parent()), s.line(st.Pos()))
+			}
+			for _, site := range sites {
+				if N.origin(c16CV{site.ctx, st.Addr.(*ssa.FieldAddr).X}) != base {
+					return nil, fmt.Sprintf("field %s is stored at line %d on a request other than the one NewVerificationRequest returns", f, s.line(st.Pos()))
+				}
+				out = append(out, site)
+			}
+		}
+		return out, ""
+	}
+	var isDoc func(cv c16CV, depth int) bool
+	isDoc = func(cv c16CV, depth int) bool {
 		if depth > 4 {
 			return false
 		}
-		v = originValue(v)
-		switch x := v.(type) {
+		o := N.origin(cv)
+		switch x := o.v.(type) {
 		case *ssa.Parameter:
 			b, ok := x.Type().Underlying().(*types.Basic)
-			return ok && b.Kind() == types.String
+			return ok && b.Kind() == types.String && o.ctx == N.root
 		case *ssa.Convert:
-			return isDoc(x.X, depth+1)
+			return isDoc(c16CV{o.ctx, x.X}, depth+1)
 		case *ssa.UnOp:
-			f, ok := s.fieldLoadOn(x, nil)
-			if !ok || x.Parent() != fn {
+			f, _, ok := s.fieldLoad(N, o, base)
+			if !ok {
 				return false
 			}
-			sts, why := s.writers(f)
-			if why != "" || len(sts) == 0 {
+			sites, why := onlyHere(f)
+			if why != "" {
 				return false
 			}
-			for _, st := range sts {
-				if st.Parent() != fn || !isDoc(st.Val, depth+1) {
+			for _, site := range sites {
+				if !isDoc(c16CV{site.ctx, site.in.(*ssa.Store).Val}, depth+1) {
 					return false
 				}
 			}
@@ -1204,36 +2563,37 @@ func (s *c16State) ruleSplit() {
 		return false
 	}
 	// idx + k
-	var lastIndex *ssa.Call
-	idxOff := func(v ssa.Value) (int64, bool) {
+	var lastIndex c16Site
+	idxOff := func(cv c16CV) (int64, bool) {
 		var off int64
-		for i := 0; i < 4; i++ {
-			v = originValue(v)
-			switch x := v.(type) {
+		for i := 0; i < 6; i++ {
+			o := N.origin(cv)
+			switch x := o.v.(type) {
 			case *ssa.BinOp:
 				if x.Op != token.ADD {
 					return 0, false
 				}
 				if k, ok := ConstInt(x.Y); ok {
 					off += k
-					v = x.X
+					cv = c16CV{o.ctx, x.X}
 					continue
 				}
 				if k, ok := ConstInt(x.X); ok {
 					off += k
-					v = x.Y
+					cv = c16CV{o.ctx, x.Y}
 					continue
 				}
 				return 0, false
 			case *ssa.Call:
-				c := CallSite{fn, x}
+				c := CallSite{x.Parent(), x}
 				if !(c.IsStatic("bytes", "", "LastIndex") || c.IsStatic("strings", "", "LastIndex")) {
 					return 0, false
 				}
-				if lastIndex != nil && lastIndex != x {
+				site := c16Site{o.ctx, x}
+				if lastIndex.in != nil && lastIndex != site {
 					return 0, false
 				}
-				lastIndex = x
+				lastIndex = site
 				return off, true
 			default:
 				return 0, false
@@ -1248,108 +2608,111 @@ func (s *c16State) ruleSplit() {
 		k, ok := ConstInt(v)
 		return ok && k == 0
 	}
-	guarded := func(sl *ssa.Slice) bool {
-		known, eq := c16IntFact(sl.Block(), func(v ssa.Value) bool { return originValue(v) == ssa.Value(lastIndex) }, -1)
-		return known && !eq
+	guarded := func(at c16Site) bool {
+		found := func(ctx *c16Ctx, cond ssa.Value, val bool) bool {
+			known, eq := c16IntCond(cond, val, func(v ssa.Value) bool {
+				o := N.origin(c16CV{ctx, v})
+				return lastIndex.in != nil && o.v == ssa.Value(lastIndex.in.(*ssa.Call)) && o.ctx == lastIndex.ctx
+			}, -1)
+			return known && !eq
+		}
+		return N.factHolds(found, at, nil, 6)
 	}
 	// prefix slice doc[:idx+k]
-	prefix := func(v ssa.Value, k int64) (string, *ssa.Slice) {
-		sl, ok := originValue(v).(*ssa.Slice)
+	prefix := func(cv c16CV, k int64) (string, c16CV) {
+		o := N.origin(cv)
+		sl, ok := o.v.(*ssa.Slice)
 		if !ok {
-			return "the stored value is not a slice expression of the document", nil
+			return "the stored value is not a slice expression of the document", c16CV{}
 		}
-		if !isDoc(sl.X, 0) {
-			return "the sliced value is not the document passed to NewVerificationRequest", nil
+		if !isDoc(c16CV{o.ctx, sl.X}, 0) {
+			return "the sliced value is not the document passed to NewVerificationRequest", c16CV{}
 		}
 		if !zeroOrNil(sl.Low) || sl.Max != nil || sl.High == nil {
-			return "the slice does not start at the beginning of the document", nil
+			return "the slice does not start at the beginning of the document", c16CV{}
 		}
-		off, ok := idxOff(sl.High)
+		off, ok := idxOff(c16CV{o.ctx, sl.High})
 		if !ok {
-			return "the slice does not end at an offset from LastIndex(document, separator)", nil
+			return "the slice does not end at an offset from LastIndex(document, separator)", c16CV{}
 		}
 		if off != k {
-			return fmt.Sprintf("the slice ends at separator index %+d, expected %+d", off, k), nil
+			return fmt.Sprintf("the slice ends at separator index %+d, expected %+d", off, k), c16CV{}
 		}
-		if !guarded(sl) {
-			return "the slice is not on the `index != -1` edge: a document without separator would be sliced with -1", nil
+		if !guarded(c16Site{o.ctx, sl}) {
+			return "the slice is not on the `index != -1` edge: a document without separator would be sliced with -1", c16CV{}
 		}
-		return "", sl
+		return "", o
 	}
-	onlyHere := func(f string) ([]*ssa.Store, string) {
-		sts, why := s.writers(f)
-		if why != "" {
-			return nil, why
-		}
-		if len(sts) == 0 {
-			return nil, "field " + f + " is never stored"
-		}
-		for _, st := range sts {
-			if st.Parent() != fn {
-				return nil, fmt.Sprintf("field %s is also stored in %s (line %d); the split must be made once, by NewVerificationRequest", f, FuncKey(st.Parent()), p.Fset.Position(st.Pos()).Line)
-			}
-		}
-		return sts, ""
-	}
-	// payload
-	check := func(role, f string, body func(st *ssa.Store) string, okDetail string) {
+	check := func(role, f string, body func(st c16Site) string, okDetail string) {
 		construct := key + "#split-" + role
 		if f == "" {
 			r.Undecided("J-verify", construct, p.Pos(fn.Pos()), "the "+role+" field could not be identified by the rules above")
 			return
 		}
-		sts, why := onlyHere(f)
+		sites, why := onlyHere(f)
 		if why != "" {
 			r.Violation("J-verify", construct, p.Pos(fn.Pos()), why)
 			return
 		}
-		for _, st := range sts {
+		for _, st := range sites {
 			bad := body(st)
-			r.Check(bad == "", "J-verify", construct, p.Pos(st.Pos()), "vr."+f+" "+okDetail, bad)
+			r.Check(bad == "", "J-verify", construct, p.Pos(st.in.Pos()), "vr."+f+" "+okDetail, bad)
 		}
 	}
-	check("payload", s.payloadField, func(st *ssa.Store) string {
-		why, _ := prefix(st.Val, 0)
+	check("payload", s.payloadField, func(st c16Site) string {
+		why, _ := prefix(c16CV{st.ctx, st.in.(*ssa.Store).Val}, 0)
 		return why
 	}, "= doc[:i], i = LastIndex(doc, separator), on the i != -1 edge; no other writer")
-	check("payload-json", s.bpjField, func(st *ssa.Store) string {
-		why, sl := prefix(st.Val, 1)
+	check("payload-json", s.bpjField, func(st c16Site) string {
+		why, sl := prefix(c16CV{st.ctx, st.in.(*ssa.Store).Val}, 1)
 		if why != "" {
 			return why
 		}
 		// '}' stored at index i of that slice (or of the document bytes)
-		for _, b := range fn.Blocks {
-			for _, in := range b.Instrs {
-				bs, ok := in.(*ssa.Store)
-				if !ok {
-					continue
-				}
-				ia, ok := bs.Addr.(*ssa.IndexAddr)
-				if !ok {
-					continue
-				}
-				if c, ok := ConstInt(bs.Val); !ok || c != '}' {
-					continue
-				}
-				if off, ok := idxOff(ia.Index); !ok || off != 0 {
-					continue
-				}
-				base := originValue(ia.X)
-				f, isField := s.fieldLoadOn(ia.X, nil)
-				if base == ssa.Value(sl) || (isField && f == s.bpjField && Precedes(st, bs)) || (isField && isDoc(ia.X, 0) && Precedes(bs, st)) {
-					return ""
+		for _, c := range N.contexts() {
+			for _, b := range c.fn.Blocks {
+				for _, in := range b.Instrs {
+					bs, ok := in.(*ssa.Store)
+					if !ok {
+						continue
+					}
+					ia, ok := bs.Addr.(*ssa.IndexAddr)
+					if !ok {
+						continue
+					}
+					if cst, ok := ConstInt(bs.Val); !ok || cst != '}' {
+						continue
+					}
+					if off, ok := idxOff(c16CV{c, ia.Index}); !ok || off != 0 {
+						continue
+					}
+					bsite := c16Site{c, bs}
+					if N.origin(c16CV{c, ia.X}) == sl {
+						return ""
+					}
+					f, _, isField := s.fieldLoad(N, c16CV{c, ia.X}, base)
+					if isField && f == s.bpjField {
+						if ok, _ := N.succAt(c16Event{st, c16EvExec}, bsite, nil); ok {
+							return ""
+						}
+					}
+					if isField && isDoc(c16CV{c, ia.X}, 0) {
+						if ok, _ := N.succAt(c16Event{bsite, c16EvExec}, st, nil); ok {
+							return ""
+						}
+					}
 				}
 			}
 		}
 		return "no '}' is stored at the separator index of the payload JSON: the payload would not parse as the object that was signed plus its closing brace"
 	}, "= doc[:i+1] with '}' stored at index i; no other writer")
-	check("signature-bytes", s.bsField, func(st *ssa.Store) string {
-		for _, x := range c16Slice(st.Val) {
-			sl, ok := x.(*ssa.Slice)
-			if !ok || !isDoc(sl.X, 0) || sl.High != nil || sl.Max != nil || sl.Low == nil {
+	check("signature-bytes", s.bsField, func(st c16Site) string {
+		for _, x := range N.slice(c16CV{st.ctx, st.in.(*ssa.Store).Val}) {
+			sl, ok := x.v.(*ssa.Slice)
+			if !ok || !isDoc(c16CV{x.ctx, sl.X}, 0) || sl.High != nil || sl.Max != nil || sl.Low == nil {
 				continue
 			}
-			if off, ok := idxOff(sl.Low); ok && off == 1 && guarded(sl) {
+			if off, ok := idxOff(c16CV{x.ctx, sl.Low}); ok && off == 1 && guarded(c16Site{x.ctx, sl}) {
 				return ""
 			}
 		}
@@ -1357,15 +2720,16 @@ func (s *c16State) ruleSplit() {
 	}, "derives from doc[i+1:]; no other writer")
 	// the separator
 	construct := key + "#separator"
-	if lastIndex == nil {
+	if lastIndex.in == nil {
 		r.Violation("J-verify", construct, p.Pos(fn.Pos()), "no bytes/strings.LastIndex over the document locates the separator: the payload must end at the LAST separator, since the payload itself may contain look-alikes")
 		return
 	}
+	li := lastIndex.in.(*ssa.Call)
 	bad := ""
-	if !isDoc(lastIndex.Call.Args[0], 0) {
+	if !isDoc(c16CV{lastIndex.ctx, li.Call.Args[0]}, 0) {
 		bad = "LastIndex does not search the document passed to NewVerificationRequest"
 	}
-	sepV := lastIndex.Call.Args[1]
+	sepV := N.origin(c16CV{lastIndex.ctx, li.Call.Args[1]}).v
 	if cv, ok := sepV.(*ssa.Convert); ok {
 		sepV = cv.X
 	}
@@ -1379,7 +2743,7 @@ func (s *c16State) ruleSplit() {
 			bad = fmt.Sprintf("the separator %q does not contain the quoted JSON key %q under which the signature is read", sep, s.sigKey)
 		}
 	}
-	r.Check(bad == "", "J-verify", construct, p.Pos(lastIndex.Pos()),
+	r.Check(bad == "", "J-verify", construct, p.Pos(li.Pos()),
 		fmt.Sprintf("the split index is LastIndex(doc, %q); the separator contains the signature key %q", sep, s.sigKey), bad)
 }
 
@@ -1391,140 +2755,60 @@ func (s *c16State) isVRPtr(t types.Type) bool {
 	return ok && NamedOf(pt) == s.vrT && pt.Elem() == types.Type(s.vrT)
 }
 
-func (s *c16State) verifyFn() *ssa.Function { return s.p.Func(c16Pkg, "VerifyRequest", "Verify") }
+func (s *c16State) outside(fn *ssa.Function) bool {
+	return !c16InPkg(fn, c16Pkg) && !IsTestSupportPkg(RelPkg(TopFunc(fn).Pkg.Pkg))
+}
 
-// verifiedAt: at instruction at, v is a request on which Verify returned nil,
-// or the result of a verifier function that returned a nil error.
-func (s *c16State) verifiedAt(v ssa.Value, at ssa.Instruction) (bool, string) {
-	fn := at.Parent()
+func (s *c16State) isVerifyCall(c CallSite) bool {
+	return c.Value() != nil && c.Callee() == s.verifyFn()
+}
+
+// verifiedAt: at site `at` of effective body e, v is a request on which
+// Verify returned nil on every path to the site.
+func (s *c16State) verifiedAt(e *c16Eff, v c16CV, at c16Site) (bool, string) {
+	base := e.origin(v)
 	why := "no call of Verify on this request dominates the site"
-	vf := s.verifyFn()
-	for _, c := range CallsIn(fn, false) {
-		if c.Value() == nil {
+	for _, vs := range e.calls(s.isVerifyCall) {
+		call := vs.in.(*ssa.Call)
+		if e.origin(c16CV{vs.ctx, call.Call.Args[0]}) != base {
 			continue
 		}
-		if c.Callee() == vf && sameOrigin(c.Args()[0], v) {
-			if ok, w := SuccessDominates(c.Value(), at); ok {
-				return true, "Verify returned nil on it"
-			} else if s.errFieldNilAt(v, c.Value(), at) {
-				return true, "Verify ran on it and its " + s.errField + " field, which Verify sets whenever it fails, was found nil afterwards"
-			} else {
-				why = "Verify is called on it but " + w
-			}
+		ok, w := e.succAt(c16Event{vs, c16EvOK}, at, nil)
+		if ok {
+			return true, "Verify returned nil on it"
 		}
-	}
-	if ex, ok := originValue(v).(*ssa.Extract); ok {
-		if call, ok := ex.Tuple.(*ssa.Call); ok {
-			if f := (CallSite{fn, call}).Callee(); f != nil && s.verifiers[f] {
-				if ok, w := SuccessDominates(call, at); ok {
-					return true, "returned by verifier " + FuncKey(f) + " with a nil error"
-				} else {
-					why = "it is the result of " + FuncKey(f) + " but " + w
-				}
-			}
+		if vs.ctx == at.ctx && s.errFieldNilAt(call.Call.Args[0], call, at.in) {
+			return true, "Verify ran on it and its " + s.errField + " field, which Verify sets whenever it fails, was found nil afterwards"
 		}
+		why = "Verify is called on it but " + w
 	}
 	return false, why
 }
 
-func (s *c16State) ruleVerifiers() {
-	p, r := s.p, s.r
-	n := 0
-	for _, fn := range p.AllFuncs {
-		if c16InPkg(fn, c16Pkg) || IsTestSupportPkg(RelPkg(TopFunc(fn).Pkg.Pkg)) {
-			continue
-		}
-		res := fn.Signature.Results()
-		idx := -1
-		for i := 0; i < res.Len(); i++ {
-			if s.isVRPtr(res.At(i).Type()) {
-				idx = i
-			}
-		}
-		if idx < 0 {
-			continue
-		}
-		n++
-		construct := FuncKey(fn) + "#returns-verified"
-		if ErrResultIndex(fn) < 0 {
-			r.Undecided("J-index", construct, p.Pos(fn.Pos()), "returns a *VerifyRequest without an error result; whether callers may trust it is not modelled")
-			continue
-		}
-		bad := ""
-		cnt := 0
-		for _, nr := range c16SuccessReturns(fn) {
-			var v ssa.Value
-			for _, ri := range Returns(fn) {
-				if ri.Ret == nr.Ret {
-					v = ri.Results[idx]
-				}
-			}
-			if v == nil || IsNilConst(v) {
-				continue
-			}
-			cnt++
-			if ok, why := s.verifiedAt(v, c16Last(nr.From)); !ok {
-				bad = fmt.Sprintf("the return at line %d hands out a request with a possibly-nil error although %s", p.Fset.Position(nr.Ret.Pos()).Line, why)
-			}
-		}
-		if bad == "" {
-			s.verifiers[fn] = true
-		}
-		r.Check(bad == "", "J-index", construct, p.Pos(fn.Pos()),
-			fmt.Sprintf("%d return(s) hand out a request together with a possibly-nil error, each dominated by Verify()==nil on that request", cnt), bad)
+// declaredVRParam: v is a *VerifyRequest parameter of a declared function (its
+// callers are checked by the callers rule).
+func (s *c16State) declaredVRParam(o c16CV) (*ssa.Parameter, bool) {
+	pr, ok := o.v.(*ssa.Parameter)
+	if !ok || !s.isVRPtr(pr.Type()) || o.ctx.call != nil {
+		return nil, false
 	}
-	r.Analysed("verifier_functions", n)
+	return pr, true
 }
 
-func (s *c16State) ruleCallers() {
-	p, r := s.p, s.r
-	n := 0
-	for _, fn := range p.AllFuncs {
-		if c16InPkg(fn, c16Pkg) || IsTestSupportPkg(RelPkg(TopFunc(fn).Pkg.Pkg)) || fn.Parent() != nil {
-			continue
-		}
-		for pi, prm := range fn.Params {
-			if !s.isVRPtr(prm.Type()) {
-				continue
-			}
-			if uses := p.FuncValueUses(fn); len(uses) > 0 {
-				r.Undecided("J-index", FuncKey(fn)+"#callers", p.Pos(uses[0].Pos()), "the function is used as a value; its callers cannot be enumerated statically")
-			}
-			if fn.Signature.Recv() != nil {
-				if inv := p.InvokeSites(fn); len(inv) > 0 {
-					r.Undecided("J-index", FuncKey(fn)+"#callers", p.Pos(inv[0].Pos()), "the method may be reached through an interface; those callers are not checked")
-				}
-			}
-			callers := p.StaticCallers(fn)
-			if len(callers) == 0 {
-				r.OKTable("J-index", FuncKey(fn)+"#callers", p.Pos(fn.Pos()), "takes a *VerifyRequest but has no caller")
-			}
-			for _, c := range callers {
-				n++
-				construct := FuncKey(c.Fn) + "#passes-request-to:" + FuncKey(fn)
-				arg := c.Args()[pi]
-				if pr, ok := originValue(arg).(*ssa.Parameter); ok && s.isVRPtr(pr.Type()) {
-					r.OK("J-index", construct, p.Pos(c.Pos()), "forwards its own *VerifyRequest parameter (its callers are checked in turn)")
-					continue
-				}
-				ok, why := s.verifiedAt(arg, c.Instr)
-				r.Check(ok, "J-index", construct, p.Pos(c.Pos()), "the request passed: "+why,
-					fmt.Sprintf("%s receives a request that is not known verified: %s", FuncKey(fn), why))
-			}
-		}
-	}
-	r.Analysed("request_passing_call_sites", n)
-}
+// The read and pass rules are demand driven: a function that reads an exported
+// field of a *VerifyRequest parameter without having verified it itself
+// DEMANDS a verified request through that parameter; so does a function that
+// passes its parameter on to a demanding one. Every caller of a demanding
+// function must pass a verified request (or its own, then demanding, parameter).
+// A function that takes a request in order to verify it demands nothing.
 
 func (s *c16State) ruleReads() {
 	p, r := s.p, s.r
 	st := s.vrT.Underlying().(*types.Struct)
 	n := 0
-	if len(s.ix.whole) > 0 {
-		for _, w := range s.ix.whole {
-			if !c16InPkg(w.Parent(), c16Pkg) {
-				r.Undecided("J-index", FuncKey(w.Parent())+"#copies-request", p.Pos(w.Pos()), "a VerifyRequest is copied as a whole outside package jsonsign; reads of the copy are not tracked")
-			}
+	for _, w := range s.ix.whole {
+		if !c16InPkg(w.Parent(), c16Pkg) {
+			r.Undecided("J-index", FuncKey(w.Parent())+"#copies-request", p.Pos(w.Pos()), "a VerifyRequest is copied as a whole outside package jsonsign; reads of the copy are not tracked")
 		}
 	}
 	for i := 0; i < st.NumFields(); i++ {
@@ -1533,32 +2817,169 @@ func (s *c16State) ruleReads() {
 			continue // an error-typed field is the failure report: meaningful exactly when verification failed
 		}
 		for _, e := range s.ix.escapes[f.Name()] {
-			if !c16InPkg(e.Parent(), c16Pkg) && !IsTestSupportPkg(RelPkg(TopFunc(e.Parent()).Pkg.Pkg)) {
+			if s.outside(e.Parent()) {
 				r.Undecided("J-index", FuncKey(e.Parent())+"#reads:"+f.Name(), p.Pos(e.Pos()), "the address of the field is taken outside package jsonsign; reads through it are not tracked")
 			}
 		}
 		for _, ld := range s.ix.loads[f.Name()] {
 			fn := ld.Parent()
-			if c16InPkg(fn, c16Pkg) || IsTestSupportPkg(RelPkg(TopFunc(fn).Pkg.Pkg)) {
+			if !s.outside(fn) {
 				continue
 			}
 			n++
-			construct := FuncKey(fn) + "#reads:" + f.Name()
-			base := ld.X.(*ssa.FieldAddr).X
-			if pr, ok := originValue(base).(*ssa.Parameter); ok && s.isVRPtr(pr.Type()) {
-				if pr.Parent().Parent() != nil {
-					r.Undecided("J-index", construct, p.Pos(ld.Pos()), "read on the *VerifyRequest parameter of a function literal; its callers are not enumerated")
+			construct := FuncKey(TopFunc(fn)) + "#reads:" + f.Name()
+			baseV := ld.X.(*ssa.FieldAddr).X
+			good, und, why := true, "", ""
+			for _, es := range s.localSites(ld) {
+				o := es.e.origin(c16CV{es.site.ctx, baseV})
+				ok, w := s.verifiedAt(es.e, o, es.site)
+				if ok {
+					why = "read on a request known verified: " + w
 					continue
 				}
-				r.OK("J-index", construct, p.Pos(ld.Pos()), "read on the *VerifyRequest parameter of "+FuncKey(pr.Parent())+" (every caller passes a verified request, see #passes-request-to)")
-				continue
+				if pr, isPrm := s.declaredVRParam(o); isPrm {
+					if pr.Parent().Parent() != nil {
+						und = "read on the *VerifyRequest parameter of a function literal that is not called directly; its callers are not enumerated"
+						continue
+					}
+					s.demand(pr)
+					why = "read on the *VerifyRequest parameter of " + FuncKey(pr.Parent()) + " (every caller passes a verified request, see #passes-request-to)"
+					continue
+				}
+				good, why = false, w
+				break
 			}
-			ok, why := s.verifiedAt(base, ld)
-			r.Check(ok, "J-index", construct, p.Pos(ld.Pos()), "read on a request known verified: "+why,
-				fmt.Sprintf("%s of a request is read where the request is not known verified: %s", f.Name(), why))
+			switch {
+			case !good:
+				r.Violation("J-index", construct, p.Pos(ld.Pos()), fmt.Sprintf("%s of a request is read where the request is not known verified: %s", f.Name(), why))
+			case und != "":
+				r.Undecided("J-index", construct, p.Pos(ld.Pos()), und)
+			default:
+				r.OK("J-index", construct, p.Pos(ld.Pos()), why)
+			}
 		}
 	}
 	r.Analysed("request_field_reads_outside_jsonsign", n)
+}
+
+func (s *c16State) demand(pr *ssa.Parameter) {
+	if s.demanded == nil {
+		s.demanded = map[*ssa.Parameter]bool{}
+	}
+	if !s.demanded[pr] {
+		s.demanded[pr] = true
+		s.demandQ = append(s.demandQ, pr)
+	}
+}
+
+func (s *c16State) ruleCallers() {
+	p, r := s.p, s.r
+	n := 0
+	for len(s.demandQ) > 0 {
+		sort.Slice(s.demandQ, func(i, j int) bool {
+			a, b := s.demandQ[i], s.demandQ[j]
+			return FuncKey(a.Parent())+"/"+a.Name() < FuncKey(b.Parent())+"/"+b.Name()
+		})
+		prm := s.demandQ[0]
+		s.demandQ = s.demandQ[1:]
+		fn := prm.Parent()
+		pi := -1
+		for i, q := range fn.Params {
+			if q == prm {
+				pi = i
+			}
+		}
+		if pi < 0 {
+			continue
+		}
+		if uses := p.FuncValueUses(fn); len(uses) > 0 {
+			r.Undecided("J-index", FuncKey(fn)+"#callers", p.Pos(uses[0].Pos()), "the function relies on receiving a verified request but is used as a value; its callers cannot be enumerated statically")
+		}
+		if fn.Signature.Recv() != nil {
+			if inv := p.InvokeSites(fn); len(inv) > 0 {
+				r.Undecided("J-index", FuncKey(fn)+"#callers", p.Pos(inv[0].Pos()), "the method relies on receiving a verified request but may be reached through an interface; those callers are not checked")
+			}
+		}
+		callers := p.StaticCallers(fn)
+		if len(callers) == 0 {
+			r.OKTable("J-index", FuncKey(fn)+"#callers", p.Pos(fn.Pos()), "relies on receiving a verified request but has no caller")
+		}
+		for _, c := range callers {
+			n++
+			construct := FuncKey(TopFunc(c.Fn)) + "#passes-request-to:" + FuncKey(fn)
+			args := c.Args()
+			if pi >= len(args) {
+				continue
+			}
+			good, why := true, ""
+			for _, es := range s.localSites(c.Instr) {
+				o := es.e.origin(c16CV{es.site.ctx, args[pi]})
+				ok, w := s.verifiedAt(es.e, o, es.site)
+				if ok {
+					why = w
+					continue
+				}
+				if pr, isPrm := s.declaredVRParam(o); isPrm && pr.Parent().Parent() == nil {
+					s.demand(pr)
+					why = "forwards the *VerifyRequest parameter of " + FuncKey(pr.Parent()) + " (its callers are checked in turn)"
+					continue
+				}
+				good, why = false, w
+				break
+			}
+			r.Check(good, "J-index", construct, p.Pos(c.Pos()), "the request passed: "+why,
+				fmt.Sprintf("%s relies on a verified request but receives one that is not known verified: %s", FuncKey(fn), why))
+		}
+	}
+	r.Analysed("request_passing_call_sites", n)
+}
+
+// verifying: every successful return of f is dominated by a successful Verify
+// call (directly, through followed helpers, or through another verifying
+// function).
+func (s *c16State) verifying(f *ssa.Function) bool {
+	if f == nil {
+		return false
+	}
+	if f == s.verifyFn() {
+		return true
+	}
+	if !s.vrFuncs[f] {
+		return false // cannot even hold a request
+	}
+	switch s.verifyingM[f] {
+	case 1, 3:
+		return false
+	case 2:
+		return true
+	}
+	s.verifyingM[f] = 1
+	res := false
+	if f.Blocks != nil && !c16InPkg(f, c16Pkg) && InModule(f) {
+		if kind, _ := c16SuccessKind(f.Signature); kind == c16KindErr || kind == c16KindBool {
+			e := s.eff(f)
+			exits := e.successExits(e.root)
+			calls := e.calls(func(c CallSite) bool { return c.Value() != nil && s.verifying(c.Callee()) })
+			res = len(exits) > 0
+			for _, x := range exits {
+				ok := false
+				for _, c := range calls {
+					if o, _ := e.succAtExit(c16Event{c, c16EvOK}, x); o {
+						ok = true
+					}
+				}
+				if !ok {
+					res = false
+				}
+			}
+		}
+	}
+	if res {
+		s.verifyingM[f] = 2
+	} else {
+		s.verifyingM[f] = 3
+	}
+	return res
 }
 
 // c16SignedTypes: schema blob types that are signed documents (they carry
@@ -1568,61 +2989,95 @@ var c16SignedTypes = []struct{ constName, reason string }{
 	{"TypeClaim", "claims (incl. shares and deletes) mutate permanodes on behalf of the signer"},
 }
 
+// ruleSignedTypes: the functions of pkg/index that dispatch on the schema
+// blob's type (found by what they compare, not by name).
 func (s *c16State) ruleSignedTypes() {
 	p, r := s.p, s.r
-	fn := p.Func("pkg/index", "Index", "populateMutationMapForSchema")
 	typeFn := p.Func("pkg/schema", "Blob", "Type")
-	key := FuncKey(fn)
-	isVerifierCall := func(in ssa.Instruction) *ssa.Call {
-		call, ok := in.(*ssa.Call)
-		if !ok {
-			return nil
+	isTypeCmp := func(cond ssa.Value) (k string, eq, ok bool) {
+		bo, isBO := cond.(*ssa.BinOp)
+		if !isBO || (bo.Op != token.EQL && bo.Op != token.NEQ) {
+			return "", false, false
 		}
-		f := (CallSite{fn, call}).Callee()
-		if f != nil && (s.verifiers[f] || f == s.verifyFn()) {
-			return call
+		x, y := bo.X, bo.Y
+		if _, isC := x.(*ssa.Const); isC {
+			x, y = y, x
 		}
-		return nil
+		k, isStr := ConstString(y)
+		if !isStr {
+			return "", false, false
+		}
+		call, isCall := originValue(x).(*ssa.Call)
+		if !isCall || (CallSite{call.Parent(), call}).Callee() != typeFn {
+			return "", false, false
+		}
+		return k, bo.Op == token.EQL, true
 	}
-	succ := c16SuccessReturns(fn)
-	maybeNil := map[*ssa.Return]bool{}
-	for _, nr := range succ {
-		maybeNil[nr.Ret] = true
-	}
+	var wants []string
 	for _, t := range c16SignedTypes {
 		co, _ := p.Pkg("pkg/schema").Types.Scope().Lookup(t.constName).(*types.Const)
 		if co == nil || co.Val().Kind() != constant.String {
 			brokenf("anchor unresolved: constant pkg/schema.%s", t.constName)
 		}
-		want := constant.StringVal(co.Val())
+		wants = append(wants, constant.StringVal(co.Val()))
+	}
+	var dispatchers []*ssa.Function
+	for _, fn := range p.FuncsIn("pkg/index") {
+		found := false
+		for _, b := range fn.Blocks {
+			if ifi, ok := c16Last(b).(*ssa.If); ok {
+				cond, _ := c16StripNot(ifi.Cond, true)
+				if k, _, ok := isTypeCmp(cond); ok {
+					for _, w := range wants {
+						if k == w {
+							found = true
+						}
+					}
+				}
+			}
+		}
+		if found && ErrResultIndex(fn) >= 0 {
+			dispatchers = append(dispatchers, fn)
+		}
+	}
+	if len(dispatchers) == 0 {
+		r.Violation("J-index", "pkg/index#signed-type-dispatch", "?", "no function of pkg/index compares (*schema.Blob).Type() with the permanode/claim constants: signed blob types are not told apart before indexing")
+		return
+	}
+	for _, fn := range dispatchers {
+		s.checkDispatcher(fn, typeFn, wants, isTypeCmp)
+	}
+}
+
+func (s *c16State) checkDispatcher(fn, typeFn *ssa.Function, wants []string, isTypeCmp func(ssa.Value) (string, bool, bool)) {
+	p, r := s.p, s.r
+	key := FuncKey(fn)
+	e := s.eff(fn)
+	isVerifierCall := func(in ssa.Instruction) *ssa.Call {
+		call, ok := in.(*ssa.Call)
+		if !ok {
+			return nil
+		}
+		if f := (CallSite{fn, call}).Callee(); f != nil && s.verifying(f) {
+			return call
+		}
+		return nil
+	}
+	exits := e.successExits(e.root)
+	maybeNil := map[*ssa.Return]bool{}
+	for _, x := range exits {
+		maybeNil[x.ret] = true
+	}
+	for i, want := range wants {
 		construct := key + "#signed-type:" + want
 		assume := func(cond ssa.Value) (bool, bool) {
-			neg := false
-			for {
-				if u, ok := cond.(*ssa.UnOp); ok && u.Op == token.NOT {
-					cond, neg = u.X, !neg
-					continue
-				}
-				break
-			}
-			bo, ok := cond.(*ssa.BinOp)
-			if !ok || (bo.Op != token.EQL && bo.Op != token.NEQ) {
-				return false, false
-			}
-			x, y := bo.X, bo.Y
-			if _, isC := x.(*ssa.Const); isC {
-				x, y = y, x
-			}
-			k, ok := ConstString(y)
+			cond, pos := c16StripNot(cond, true)
+			k, eq, ok := isTypeCmp(cond)
 			if !ok {
 				return false, false
 			}
-			call, ok := originValue(x).(*ssa.Call)
-			if !ok || (CallSite{fn, call}).Callee() != typeFn {
-				return false, false
-			}
-			val := (k == want) == (bo.Op == token.EQL)
-			return true, val != neg
+			val := (k == want) == eq
+			return true, val == pos
 		}
 		first := fn.Blocks[0].Instrs[0]
 		leaks := LeakingExits(PathQuery{
@@ -1632,46 +3087,46 @@ func (s *c16State) ruleSignedTypes() {
 			ExitOK:       func(exit ssa.Instruction) bool { ret, ok := exit.(*ssa.Return); return ok && !maybeNil[ret] },
 			IgnorePanics: true,
 		})
+		if isVerifierCall(first) != nil {
+			leaks = nil
+		}
 		if len(leaks) > 0 {
 			r.Violation("J-index", construct, p.Pos(leaks[0].Exit.Pos()),
-				fmt.Sprintf("a blob of type %q reaches the return at line %d, whose error may be nil, without any signature verification (%s)", want, p.Fset.Position(leaks[0].Exit.Pos()).Line, t.reason))
+				fmt.Sprintf("a blob of type %q reaches the return at line %d, whose error may be nil, without any signature verification (%s)", want, s.line(leaks[0].Exit.Pos()), c16SignedTypes[i].reason))
 			continue
 		}
-		r.OK("J-index", construct, p.Pos(fn.Pos()), fmt.Sprintf("every path with Type()==%q passes a verifier call before any possibly-nil-error return (%s)", want, t.reason))
+		r.OK("J-index", construct, p.Pos(fn.Pos()), fmt.Sprintf("every path with Type()==%q passes a verifying call before any possibly-nil-error return (%s)", want, c16SignedTypes[i].reason))
 	}
 	// every verifier call: later possibly-nil returns return its error or are on its success edge
 	n := 0
+	bad, site := "", p.Pos(fn.Pos())
 	for _, b := range fn.Blocks {
 		for _, in := range b.Instrs {
 			call := isVerifierCall(in)
 			if call == nil {
 				continue
 			}
+			if n == 0 {
+				site = p.Pos(call.Pos())
+			}
 			n++
-			ev, _, discarded := ErrValue(call)
 			reach := ReachableFrom(call, nil)
-			bad := ""
-			if discarded {
-				bad = "the verifier's error is discarded"
-			}
-			for _, nr := range succ {
-				if !reach[nr.Ret] {
+			for _, x := range exits {
+				if !reach[x.ret] {
 					continue
 				}
-				if ev != nil && sameOrigin(nr.Val, ev) {
-					continue
-				}
-				if ok, why := SuccessDominates(call, c16Last(nr.From)); !ok {
-					bad = fmt.Sprintf("the return at line %d may carry a nil error after the verifier call although %s", p.Fset.Position(nr.Ret.Pos()).Line, why)
+				if ok, why := e.succAtExit(c16Event{c16Site{e.root, call}, c16EvOK}, x); !ok {
+					bad = fmt.Sprintf("the return at line %d may carry a nil error after the verifying call at line %d although %s", s.line(x.ret.Pos()), s.line(call.Pos()), why)
 				}
 			}
-			r.Check(bad == "", "J-index", key+"#verifier-result-honoured", p.Pos(call.Pos()),
-				"every possibly-nil-error return after the verifier call returns the verifier's own error or is on its success edge", bad)
 		}
 	}
 	if n == 0 {
-		r.Violation("J-index", key+"#verifier-result-honoured", p.Pos(fn.Pos()), "the schema dispatch contains no verifier call at all")
+		r.Violation("J-index", key+"#verifier-result-honoured", p.Pos(fn.Pos()), "the schema dispatch contains no verifying call at all")
+		return
 	}
+	r.Check(bad == "", "J-index", key+"#verifier-result-honoured", site,
+		fmt.Sprintf("after each of the %d verifying call(s), every possibly-nil-error return returns that call's own error or is on its success edge", n), bad)
 }
 
 // ruleVerifyCallers: outside package jsonsign nobody calls Verify and then
@@ -1684,24 +3139,26 @@ func (s *c16State) ruleVerifyCallers() {
 	}
 	n := 0
 	for _, c := range p.StaticCallers(vf) {
-		if c16InPkg(c.Fn, c16Pkg) || IsTestSupportPkg(RelPkg(TopFunc(c.Fn).Pkg.Pkg)) {
+		if !s.outside(c.Fn) {
 			continue
 		}
 		n++
-		construct := FuncKey(c.Fn) + "#verify-verdict-used"
+		construct := FuncKey(TopFunc(c.Fn)) + "#verify-verdict-used"
 		site := p.Pos(c.Pos())
 		if c.Value() == nil {
 			r.Violation("J-index", construct, site, "Verify is started with go/defer: its verdict is lost")
 			continue
 		}
+		// a value decides when a nil-comparison of it feeds a branch or is returned as the verdict
 		decides := func(v ssa.Value) bool {
 			if v.Referrers() == nil {
 				return false
 			}
 			for _, u := range nonDebug(*v.Referrers()) {
-				if bo, ok := u.(*ssa.BinOp); ok && (bo.Op == token.EQL || bo.Op == token.NEQ) && (IsNilConst(bo.X) || IsNilConst(bo.Y)) {
+				if bo, ok := u.(*ssa.BinOp); ok && (bo.Op == token.EQL || bo.Op == token.NEQ) && (IsNilConst(bo.X) || IsNilConst(bo.Y)) && bo.Referrers() != nil {
 					for _, w := range nonDebug(*bo.Referrers()) {
-						if _, isIf := w.(*ssa.If); isIf {
+						switch w.(type) {
+						case *ssa.If, *ssa.Return, *ssa.Phi, *ssa.Store:
 							return true
 						}
 					}
@@ -1712,7 +3169,7 @@ func (s *c16State) ruleVerifyCallers() {
 		used := false
 		if ev, _, discarded := ErrValue(c.Value()); ev != nil && !discarded {
 			used = decides(ev)
-			for _, ri := range Returns(c.Fn) {
+			for _, ri := range c16Returns(c.Fn) {
 				for _, v := range ri.Results {
 					if sameOrigin(v, ev) {
 						used = true
@@ -1735,72 +3192,20 @@ func (s *c16State) ruleVerifyCallers() {
 }
 
 // ---------------------------------------------------------------------------
-// J-verify: hash algorithm guard
-
-// ruleHashGuard: in VerifySignature, crypto.Hash.New (which panics for an
-// algorithm that is not linked in) is reached only through an edge on which the
-// packet's hash id was found equal to a constant.
-func (s *c16State) ruleHashGuard() {
-	p, r := s.p, s.r
-	fn := p.Func(c16Pkg, "VerifyRequest", "VerifySignature")
-	key := FuncKey(fn) + "#hash-algorithm-guard"
-	news := FindCalls(fn, false, func(c CallSite) bool { return c.Value() != nil && c.IsStatic("crypto", "Hash", "New") })
-	if len(news) == 0 {
-		r.OKTable("J-verify", key, p.Pos(fn.Pos()), "VerifySignature does not instantiate a hash from an attacker-chosen id")
-		return
-	}
-	for _, c := range news {
-		path := AccessPath(c.Args()[0])
-		establishes := func(d *ssa.BasicBlock, succ int) bool {
-			ifi, ok := c16Last(d).(*ssa.If)
-			if !ok {
-				return false
-			}
-			bo, ok := ifi.Cond.(*ssa.BinOp)
-			if !ok || (bo.Op != token.EQL && bo.Op != token.NEQ) {
-				return false
-			}
-			x, y := bo.X, bo.Y
-			if _, isC := x.(*ssa.Const); isC {
-				x, y = y, x
-			}
-			if _, ok := ConstInt(y); !ok || AccessPath(x) != path {
-				return false
-			}
-			return (bo.Op == token.EQL) == (succ == 0)
-		}
-		seen := map[*ssa.BasicBlock]bool{fn.Blocks[0]: true}
-		var walk func(b *ssa.BasicBlock)
-		walk = func(b *ssa.BasicBlock) {
-			for i, sc := range b.Succs {
-				if seen[sc] || establishes(b, i) {
-					continue
-				}
-				seen[sc] = true
-				walk(sc)
-			}
-		}
-		walk(fn.Blocks[0])
-		r.Check(!seen[c.Block()], "J-verify", key, p.Pos(c.Pos()),
-			"every path to Hash.New passes an edge on which the signature packet's hash id equals a constant (white list)",
-			"Hash.New is reachable without the signature packet's hash id having been found equal to an allowed constant: an id whose implementation is not linked in makes Hash.New panic, and weak digests are accepted")
-	}
-}
-
-// ---------------------------------------------------------------------------
 // J-sign
 
 // c16Part is one piece of a string built by concatenation or Sprintf("%s…").
 type c16Part struct {
 	lit string
-	val ssa.Value // nil for literals
+	val c16CV // val.v == nil for literals
 }
 
-func c16StringParts(v ssa.Value, depth int) ([]c16Part, bool) {
-	if depth > 6 {
+func (e *c16Eff) stringParts(cv c16CV, depth int) ([]c16Part, bool) {
+	if depth > 8 {
 		return nil, false
 	}
-	v = originValue(v)
+	o := e.origin(cv)
+	v := o.v
 	if k, ok := ConstString(v); ok {
 		return []c16Part{{lit: k}}, true
 	}
@@ -1809,13 +3214,13 @@ func c16StringParts(v ssa.Value, depth int) ([]c16Part, bool) {
 		if x.Op != token.ADD {
 			return nil, false
 		}
-		a, ok1 := c16StringParts(x.X, depth+1)
-		b, ok2 := c16StringParts(x.Y, depth+1)
+		a, ok1 := e.stringParts(c16CV{o.ctx, x.X}, depth+1)
+		b, ok2 := e.stringParts(c16CV{o.ctx, x.Y}, depth+1)
 		return append(a, b...), ok1 && ok2
 	case *ssa.Call:
 		c := CallSite{x.Parent(), x}
 		if !c.IsStatic("fmt", "", "Sprintf") {
-			return []c16Part{{val: v}}, true
+			return []c16Part{{val: o}}, true
 		}
 		format, ok := ConstString(x.Call.Args[0])
 		if !ok || len(x.Call.Args) != 2 {
@@ -1826,7 +3231,7 @@ func c16StringParts(v ssa.Value, depth int) ([]c16Part, bool) {
 			return nil, false
 		}
 		arr, ok := sl.X.(*ssa.Alloc)
-		if !ok {
+		if !ok || arr.Referrers() == nil {
 			return nil, false
 		}
 		args := map[int64]ssa.Value{}
@@ -1836,12 +3241,12 @@ func c16StringParts(v ssa.Value, depth int) ([]c16Part, bool) {
 				continue
 			}
 			i, ok := ConstInt(ia.Index)
-			if !ok {
+			if !ok || ia.Referrers() == nil {
 				return nil, false
 			}
 			for _, w := range nonDebug(*ia.Referrers()) {
 				if st, ok := w.(*ssa.Store); ok && st.Addr == ssa.Value(ia) {
-					args[i] = originValue(st.Val)
+					args[i] = st.Val
 				}
 			}
 		}
@@ -1862,89 +3267,122 @@ func c16StringParts(v ssa.Value, depth int) ([]c16Part, bool) {
 				if a == nil {
 					return nil, false
 				}
-				if b, ok := a.Type().Underlying().(*types.Basic); !ok || b.Kind() != types.String {
+				ao := e.origin(c16CV{o.ctx, a})
+				if b, ok := ao.v.Type().Underlying().(*types.Basic); !ok || b.Kind() != types.String {
 					return nil, false
 				}
-				out = append(out, c16Part{val: a})
+				sub, ok := e.stringParts(ao, depth+1)
+				if !ok {
+					return nil, false
+				}
+				out = append(out, sub...)
 			}
 		}
 		return out, true
 	}
-	return []c16Part{{val: v}}, true
+	return []c16Part{{val: o}}, true
+}
+
+// c16MergeLits joins adjacent literal parts.
+func c16MergeLits(ps []c16Part) []c16Part {
+	var out []c16Part
+	for _, q := range ps {
+		if q.val.v == nil && len(out) > 0 && out[len(out)-1].val.v == nil {
+			out[len(out)-1].lit += q.lit
+			continue
+		}
+		out = append(out, q)
+	}
+	return out
 }
 
 func (s *c16State) ruleSign() {
 	p, r := s.p, s.r
 	fn := p.Func(c16Pkg, "SignRequest", "Sign")
+	S := s.eff(fn)
 	key := FuncKey(fn)
-	detach := FindCalls(fn, false, func(c CallSite) bool {
+	detach := S.calls(func(c CallSite) bool {
 		return c.Value() != nil && c.IsStatic("golang.org/x/crypto/openpgp", "", "ArmoredDetachSign")
 	})
 	if len(detach) != 1 {
-		r.Undecided("J-sign", key+"#signed-bytes", p.Pos(fn.Pos()), fmt.Sprintf("expected exactly one openpgp.ArmoredDetachSign call in Sign, found %d", len(detach)))
+		r.Undecided("J-sign", key+"#signed-bytes", p.Pos(fn.Pos()), fmt.Sprintf("expected exactly one openpgp.ArmoredDetachSign call site in Sign's effective body, found %d", len(detach)))
 		return
 	}
 	d := detach[0]
-	dargs := d.Args()
+	dcall := d.in.(*ssa.Call)
+	dargs := dcall.Call.Args
 	// what is signed: reader constructor over a string/bytes value
-	var signed ssa.Value
-	if rc, ok := originValue(dargs[2]).(*ssa.Call); ok {
-		c := CallSite{fn, rc}
-		if c.IsStatic("strings", "", "NewReader") || c.IsStatic("bytes", "", "NewReader") || c.IsStatic("bytes", "", "NewBufferString") || c.IsStatic("bytes", "", "NewBuffer") {
-			signed = originValue(rc.Call.Args[0])
-			if cv, ok := signed.(*ssa.Convert); ok {
-				signed = originValue(cv.X)
+	var signed c16CV
+	if ro := S.origin(c16CV{d.ctx, dargs[2]}); ro.v != nil {
+		if rc, ok := ro.v.(*ssa.Call); ok {
+			c := CallSite{rc.Parent(), rc}
+			if c.IsStatic("strings", "", "NewReader") || c.IsStatic("bytes", "", "NewReader") || c.IsStatic("bytes", "", "NewBufferString") || c.IsStatic("bytes", "", "NewBuffer") {
+				signed = S.origin(c16CV{ro.ctx, rc.Call.Args[0]})
+				if cv, ok := signed.v.(*ssa.Convert); ok {
+					signed = S.origin(c16CV{signed.ctx, cv.X})
+				}
 			}
 		}
 	}
-	succ := c16SuccessReturns(fn)
-	if signed == nil {
-		r.Undecided("J-sign", key+"#signed-bytes", p.Pos(d.Pos()), "the message handed to ArmoredDetachSign is not a reader built directly over a string or byte slice")
-	} else if len(succ) == 0 {
+	exits := S.successExits(S.root)
+	if signed.v == nil {
+		r.Undecided("J-sign", key+"#signed-bytes", p.Pos(dcall.Pos()), "the message handed to ArmoredDetachSign is not a reader built directly over a string or byte slice")
+	} else if len(exits) == 0 {
 		r.Violation("J-sign", key+"#signed-bytes", p.Pos(fn.Pos()), "Sign has no return whose error may be nil")
 	}
-	if signed != nil {
-		for _, nr := range succ {
+	if signed.v != nil {
+		done := map[*ssa.Return]bool{}
+		for _, x := range exits {
 			var doc ssa.Value
-			for _, ri := range Returns(fn) {
-				if ri.Ret == nr.Ret {
+			for _, ri := range c16Returns(fn) {
+				if ri.Ret == x.ret {
 					doc = ri.Results[0]
 				}
 			}
-			site := p.Pos(nr.Ret.Pos())
-			parts, ok := c16StringParts(doc, 0)
+			site := p.Pos(x.inner.Pos())
+			parts, ok := S.stringParts(c16CV{S.root, doc}, 0)
+			parts = c16MergeLits(parts)
 			if !ok || len(parts) < 4 {
-				r.Undecided("J-sign", key+"#signed-bytes", site, "the returned document is not built by Sprintf(\"%s…\")/concatenation of payload, separator, signature and tail")
+				if !done[x.ret] {
+					r.Undecided("J-sign", key+"#signed-bytes", site, "the returned document is not built by Sprintf(\"%s…\")/concatenation of payload, separator, signature and tail")
+				}
+				done[x.ret] = true
 				continue
 			}
 			bad := ""
 			switch {
-			case parts[0].val == nil || !sameOrigin(parts[0].val, signed):
+			case parts[0].val.v == nil || parts[0].val != signed:
 				bad = "the returned document does not start with exactly the string that was signed: the verifier hashes everything before the last separator"
-			case parts[1].val != nil:
+			case parts[1].val.v != nil:
 				bad = "the signed string is not followed by a constant separator"
-			case parts[2].val == nil:
+			case parts[2].val.v == nil:
 				bad = "no signature value follows the separator"
-			case parts[3].val != nil || !strings.HasPrefix(parts[3].lit, `"}`):
+			case parts[3].val.v != nil || !strings.HasPrefix(parts[3].lit, `"}`):
 				bad = "the signature is not followed by '\"}' closing the camliSig string and the object"
 			}
 			if bad == "" {
-				if ok, w := SuccessDominates(d.Value(), nr.Ret); !ok {
+				if ok, w := S.succAtExit(c16Event{d, c16EvOK}, x); !ok {
 					bad = "the document is returned although ArmoredDetachSign may have failed: " + w
 				}
 			}
 			if bad == "" {
 				fromBuf := false
-				bufCell, _ := originValue(dargs[0]).(*ssa.Alloc)
-				for _, x := range c16Slice(parts[2].val) {
-					if bufCell != nil && x == ssa.Value(bufCell) {
-						fromBuf = true
+				buf := S.origin(c16CV{d.ctx, dargs[0]})
+				if _, isAl := buf.v.(*ssa.Alloc); isAl {
+					for _, y := range S.slice(parts[2].val) {
+						if y == buf {
+							fromBuf = true
+						}
 					}
 				}
 				if !fromBuf {
 					bad = "the signature text does not derive from the buffer ArmoredDetachSign wrote to"
 				}
 			}
+			if done[x.ret] && bad == "" {
+				continue
+			}
+			done[x.ret] = true
 			r.Check(bad == "", "J-sign", key+"#signed-bytes", site,
 				"returned document = <string handed to ArmoredDetachSign> + constant + <text derived from the armor buffer> + '\"}'…, on the signing success edge", bad)
 			// separator agreement
@@ -1962,23 +3400,24 @@ func (s *c16State) ruleSign() {
 	}
 	// who signs: entity looked up from the public key fetched under the document's signer key
 	construct := key + "#signer-agreement"
-	var fetches []*ssa.Call
-	for _, x := range c16Slice(dargs[1]) {
-		if call, ok := x.(*ssa.Call); ok && s.isFetch(call) {
-			fetches = append(fetches, call)
+	var fetches []c16Site
+	for _, x := range S.slice(c16CV{d.ctx, dargs[1]}) {
+		if call, ok := x.v.(*ssa.Call); ok && s.isFetch(call) {
+			fetches = append(fetches, c16Site{x.ctx, call})
 		}
 	}
 	switch {
 	case len(fetches) == 0:
-		r.Violation("J-sign", construct, p.Pos(d.Pos()), "the signing entity does not derive from a public key blob fetched through the request's blob.Fetcher: the signature need not match the key the document names")
+		r.Violation("J-sign", construct, p.Pos(dcall.Pos()), "the signing entity does not derive from a public key blob fetched through the request's blob.Fetcher: the signature need not match the key the document names")
 	case s.signerKey == "":
-		r.Undecided("J-sign", construct, p.Pos(d.Pos()), "the verifier's signer JSON key could not be determined")
+		r.Undecided("J-sign", construct, p.Pos(dcall.Pos()), "the verifier's signer JSON key could not be determined")
 	default:
 		bad := ""
 		for _, f := range fetches {
+			fc := f.in.(*ssa.Call)
 			ks := map[string]bool{}
-			for _, x := range c16Slice(f.Call.Args[1]) {
-				if lk, ok := x.(*ssa.Lookup); ok {
+			for _, x := range S.slice(c16CV{f.ctx, fc.Call.Args[1]}) {
+				if lk, ok := x.v.(*ssa.Lookup); ok {
 					if k, ok := ConstString(lk.Index); ok {
 						ks[k] = true
 					}
@@ -1992,64 +3431,64 @@ func (s *c16State) ruleSign() {
 				sort.Strings(l)
 				bad = fmt.Sprintf("Sign fetches the public key under JSON key(s) %v but the verifier reads the signer from %q", l, s.signerKey)
 			}
-			if ok, w := SuccessDominates(f, d.Value()); !ok {
+			if ok, w := S.succAt(c16Event{f, c16EvOK}, d, nil); !ok {
 				bad = "signing proceeds although fetching the public key may have failed: " + w
 			}
 		}
-		r.Check(bad == "", "J-sign", construct, p.Pos(d.Pos()),
+		r.Check(bad == "", "J-sign", construct, p.Pos(dcall.Pos()),
 			fmt.Sprintf("the signing entity derives from the public key blob fetched under JSON key %q, the key the verifier reads the signer from", s.signerKey), bad)
 	}
 	// the signed text is the unsigned JSON minus its closing brace: checked as a guard
 	construct = key + "#closing-brace"
-	if signed != nil {
-		sl, ok := signed.(*ssa.Slice)
+	if signed.v != nil {
+		sl, ok := signed.v.(*ssa.Slice)
 		bad := ""
 		if !ok || sl.High == nil {
 			bad = "the signed string is not the input with its last byte cut off"
 		} else {
 			// High must be len(x)-1 and a dominating test must establish x[len(x)-1] == '}'
-			hb, ok := originValue(sl.High).(*ssa.BinOp)
+			hb, ok := S.origin(c16CV{signed.ctx, sl.High}).v.(*ssa.BinOp)
 			if !ok || hb.Op != token.SUB {
 				bad = "the signed string is not cut exactly one byte short"
 			} else if k, ok := ConstInt(hb.Y); !ok || k != 1 {
 				bad = "the signed string is not cut exactly one byte short"
 			} else {
-				found := false
-				for _, f := range FactsAt(sl.Block()) {
-					bo, ok := f.Cond.(*ssa.BinOp)
+				slSite := c16Site{signed.ctx, sl}
+				found := S.factHolds(func(_ *c16Ctx, cond ssa.Value, val bool) bool {
+					cond, val = c16StripNot(cond, val)
+					bo, ok := cond.(*ssa.BinOp)
 					if !ok {
-						continue
+						return false
 					}
 					k, ok := ConstInt(bo.Y)
 					if !ok || k != '}' {
-						continue
+						return false
 					}
-					if (bo.Op == token.NEQ && !f.Val) || (bo.Op == token.EQL && f.Val) {
-						found = true
-					}
-				}
+					return (bo.Op == token.NEQ && !val) || (bo.Op == token.EQL && val)
+				}, slSite, nil, 6)
 				// alternative: the very string was right-trimmed of white space and then
 				// successfully json.Unmarshal'ed into a map, so it ends in '}'
-				if tc, ok := originValue(sl.X).(*ssa.Call); ok && !found {
-					c := CallSite{fn, tc}
-					if c.IsStatic("strings", "", "TrimRightFunc") || c.IsStatic("strings", "", "TrimSpace") || c.IsStatic("strings", "", "TrimRight") {
-						for _, u := range CallsIn(fn, false) {
-							if u.Value() == nil || !u.IsStatic("encoding/json", "", "Unmarshal") {
-								continue
-							}
-							src := originValue(u.Args()[0])
-							if cv, ok := src.(*ssa.Convert); ok {
-								src = originValue(cv.X)
-							}
-							cell, isCell := originValue(u.Args()[1]).(*ssa.Alloc)
-							if src != ssa.Value(tc) || !isCell {
-								continue
-							}
-							if _, isMap := cell.Type().(*types.Pointer).Elem().Underlying().(*types.Map); !isMap {
-								continue
-							}
-							if ok, _ := SuccessDominates(u.Value(), sl); ok {
-								found = true
+				if src := S.origin(c16CV{signed.ctx, sl.X}); !found {
+					if tc, ok := src.v.(*ssa.Call); ok {
+						c := CallSite{tc.Parent(), tc}
+						if c.IsStatic("strings", "", "TrimRightFunc") || c.IsStatic("strings", "", "TrimSpace") || c.IsStatic("strings", "", "TrimRight") {
+							for _, u := range S.calls(func(c CallSite) bool { return c.Value() != nil && c.IsStatic("encoding/json", "", "Unmarshal") }) {
+								uargs := u.in.(*ssa.Call).Call.Args
+								us := S.origin(c16CV{u.ctx, uargs[0]})
+								if cv, ok := us.v.(*ssa.Convert); ok {
+									us = S.origin(c16CV{us.ctx, cv.X})
+								}
+								cell := S.origin(c16CV{u.ctx, uargs[1]})
+								al, isCell := cell.v.(*ssa.Alloc)
+								if us != src || !isCell {
+									continue
+								}
+								if _, isMap := al.Type().(*types.Pointer).Elem().Underlying().(*types.Map); !isMap {
+									continue
+								}
+								if ok, _ := S.succAt(c16Event{u, c16EvOK}, slSite, nil); ok {
+									found = true
+								}
 							}
 						}
 					}
@@ -2059,7 +3498,7 @@ func (s *c16State) ruleSign() {
 				}
 			}
 		}
-		r.Check(bad == "", "J-sign", construct, p.Pos(d.Pos()),
+		r.Check(bad == "", "J-sign", construct, p.Pos(dcall.Pos()),
 			"the signed string is the input minus its last byte, which is known to be '}' (dominating test, or right-trimmed text that parsed as a JSON object) - the byte the verifier puts back", bad)
 	}
 }
